@@ -269,7 +269,7 @@ Definition def_row (ny nx : nat) (own det : inputs) (l : Z) : row :=
   let Ld := lab_pixels ny nx det l in
   let Lo := lab_pixels ny nx own l in
   build l ny nx Ld (g_S Ld (dataat det) (maskat det)) (g_mv (convat det) (maskat det))
-        (g_S Lo (dataat own) (maskat own)) (minl ny (map fst Lo)) (minl nx (map snd Lo))
+        (g_S Lo (dataat own) (maskat own)) (b_y0 ny Lo) (b_x0 nx Lo)
         (dataat own) (errat own) (bkgat own) (has_err own) (has_bkg own).
 
 (* ------------------------------------------------------------------ *)
@@ -368,27 +368,1576 @@ Lemma f_segarea : segment_area ny nx I l = Z.of_nat (length (lab_pixels ny nx I 
 Proof. unfold segment_area. rewrite label_cut. reflexivity. Qed.
 End ModelIsDef.
 
+
+Section Fields.
+Variables (ny nx : nat) (I : inputs) (l : Z).
+Let L := lab_pixels ny nx I l.
+Let mv := g_mv (convat I) (maskat I).
+Let So := g_S L (dataat I) (maskat I).
+
+Lemma f_by0 : by0 ny nx I l = b_y0 ny L.  Proof. reflexivity. Qed.
+Lemma f_by1 : by1 ny nx I l = b_y1 L.  Proof. reflexivity. Qed.
+Lemma f_bx0 : bx0 ny nx I l = b_x0 nx L.  Proof. reflexivity. Qed.
+Lemma f_bx1 : bx1 ny nx I l = b_x1 L.  Proof. reflexivity. Qed.
+
+Lemma f_moments : moments ny nx I l = b_moments ny nx L mv.
+Proof. unfold moments, b_moments. cbn [map]. rewrite !moment_eq. reflexivity. Qed.
+Lemma f_m00 : m00 ny nx I l = b_m00 ny nx L mv.
+Proof. unfold m00, b_m00. apply moment_eq. Qed.
+Lemma f_ccen : cutout_centroid ny nx I l = b_ccen ny nx L mv.
+Proof. unfold cutout_centroid, b_ccen. rewrite f_m00, !moment_eq. reflexivity. Qed.
+Lemma f_cen : centroid ny nx I l = b_cen ny nx L mv.
+Proof. unfold centroid, b_cen. rewrite f_ccen, f_bx0, f_by0. reflexivity. Qed.
+Lemma f_covnum : cov_num ny nx I l = b_covnum ny nx L mv.
+Proof. unfold cov_num, b_covnum. rewrite f_m00, !moment_eq. reflexivity. Qed.
+Lemma f_cov : covariance ny nx I l = b_cov ny nx L mv.
+Proof. unfold covariance, b_cov. rewrite f_m00, f_covnum. reflexivity. Qed.
+Lemma f_covden : cov_den ny nx I l = b_covden ny nx L mv.
+Proof. unfold cov_den, b_covden. rewrite f_m00. reflexivity. Qed.
+Lemma f_margin : cov_margin_ok ny nx I l = b_margin ny nx L mv.
+Proof. unfold cov_margin_ok, b_margin. rewrite f_m00, f_covnum. reflexivity. Qed.
+
+Lemma f_flux : segment_flux ny nx I l = b_flux So (dataat I).
+Proof.
+  unfold segment_flux, b_flux, all_masked, data_values. rewrite unmasked_eq. fold L So.
+  destruct (isnil So); [reflexivity|]. f_equal. ring.
+Qed.
+Lemma f_fluxerr2 : segment_fluxerr2 ny nx I l = b_fluxerr2 So (errat I) (has_err I).
+Proof. unfold segment_fluxerr2, b_fluxerr2, all_masked. rewrite unmasked_eq. reflexivity. Qed.
+Lemma f_bkgsum : background_sum ny nx I l = b_bkgsum So (bkgat I) (has_bkg I).
+Proof. unfold background_sum, b_bkgsum, all_masked. rewrite unmasked_eq. reflexivity. Qed.
+Lemma f_bkgmean : background_mean ny nx I l = b_bkgmean So (bkgat I) (has_bkg I).
+Proof. unfold background_mean, b_bkgmean. rewrite f_bkgsum, unmasked_eq. reflexivity. Qed.
+Lemma f_argmin : argmin ny nx I l = b_argmin So (dataat I).
+Proof. unfold argmin, b_argmin, tagged, b_tagged. rewrite unmasked_eq. reflexivity. Qed.
+Lemma f_argmax : argmax ny nx I l = b_argmax So (dataat I).
+Proof. unfold argmax, b_argmax, tagged, b_tagged. rewrite unmasked_eq. reflexivity. Qed.
+Lemma f_cminidx : cutout_minval_index ny nx I l =
+  option_map (fun a => o_rel (b_y0 ny L) (b_x0 nx L) (fst a)) (b_argmin So (dataat I)).
+Proof. unfold cutout_minval_index. rewrite f_argmin. reflexivity. Qed.
+Lemma f_cmaxidx : cutout_maxval_index ny nx I l =
+  option_map (fun a => o_rel (b_y0 ny L) (b_x0 nx L) (fst a)) (b_argmax So (dataat I)).
+Proof. unfold cutout_maxval_index. rewrite f_argmax. reflexivity. Qed.
+Lemma f_minidx : minval_index ny nx I l =
+  option_map (o_add (b_y0 ny L) (b_x0 nx L))
+    (option_map (fun a => o_rel (b_y0 ny L) (b_x0 nx L) (fst a)) (b_argmin So (dataat I))).
+Proof. unfold minval_index. rewrite f_cminidx. reflexivity. Qed.
+Lemma f_maxidx : maxval_index ny nx I l =
+  option_map (o_add (b_y0 ny L) (b_x0 nx L))
+    (option_map (fun a => o_rel (b_y0 ny L) (b_x0 nx L) (fst a)) (b_argmax So (dataat I))).
+Proof. unfold maxval_index. rewrite f_cmaxidx. reflexivity. Qed.
+Lemma f_min : min_value ny nx I l = option_map snd (b_argmin So (dataat I)).
+Proof. unfold min_value. rewrite f_argmin. reflexivity. Qed.
+Lemma f_max : max_value ny nx I l = option_map snd (b_argmax So (dataat I)).
+Proof. unfold max_value. rewrite f_argmax. reflexivity. Qed.
+End Fields.
+
 Theorem mkrow_is_build ny nx own det l : mkrow ny nx own det l = def_row ny nx own det l.
 Proof.
   unfold mkrow, def_row, build.
-  f_equal.
-  - apply f_segarea.
-  - apply f_area.
-  - unfold moments, b_moments. cbn [map]. rewrite !moment_eq. reflexivity.
-  - unfold cutout_centroid, b_ccen, m00, b_m00. rewrite !moment_eq. reflexivity.
-  - unfold centroid, b_cen, cutout_centroid, b_ccen, m00, b_m00. rewrite !moment_eq. reflexivity.
-  - unfold covariance, b_cov, cov_num, b_covnum, m00, b_m00. rewrite !moment_eq. reflexivity.
-  - unfold cov_den, b_covden, m00, b_m00. rewrite !moment_eq. reflexivity.
-  - unfold cov_margin_ok, b_margin, cov_num, b_covnum, m00, b_m00. rewrite !moment_eq. reflexivity.
-  - unfold segment_flux, b_flux, all_masked, data_values. rewrite unmasked_eq.
-    destruct (isnil _); [reflexivity|]. f_equal. ring.
-  - unfold segment_fluxerr2, b_fluxerr2, all_masked. rewrite unmasked_eq. reflexivity.
-  - unfold min_value, argmin, tagged. rewrite unmasked_eq. reflexivity.
-  - unfold max_value, argmax, tagged. rewrite unmasked_eq. reflexivity.
-  - unfold cutout_minval_index, argmin, tagged. rewrite unmasked_eq. reflexivity.
-  - unfold cutout_maxval_index, argmax, tagged. rewrite unmasked_eq. reflexivity.
-  - unfold minval_index, cutout_minval_index, argmin, tagged. rewrite unmasked_eq. reflexivity.
-  - unfold maxval_index, cutout_maxval_index, argmax, tagged. rewrite unmasked_eq. reflexivity.
-  - unfold background_sum, b_bkgsum, all_masked. rewrite unmasked_eq. reflexivity.
-  - unfold background_mean, b_bkgmean, background_sum, b_bkgsum, all_masked. rewrite unmasked_eq. reflexivity.
+  rewrite f_segarea, f_area, f_moments, f_ccen, f_cen, f_cov, f_covden, f_margin,
+    f_flux, f_fluxerr2, f_min, f_max, f_cminidx, f_cmaxidx, f_minidx, f_maxidx, f_bkgsum, f_bkgmean,
+    f_bx0, f_bx1, f_by0, f_by1.
+  reflexivity.
+Qed.
+
+(* ------------------------------------------------------------------ *)
+(* 4. consequences                                                     *)
+(* ------------------------------------------------------------------ *)
+(* 4a. locality: a row reads the arrays only at the pixels carrying its label *)
+Lemma b_moment_ext ny nx L mv mv' :
+  (forall p, In p L -> mv p = mv' p) ->
+  forall a b, b_moment ny nx L mv a b = b_moment ny nx L mv' a b.
+Proof.
+  intros H a b. unfold b_moment. f_equal. apply map_ext_in. intros p Hp. rewrite (H p Hp). reflexivity.
+Qed.
+
+Lemma build_ext l ny nx L Sd mv mv' So oy ox dat dat' err err' bkg bkg' he hb :
+  (forall p, In p L -> mv p = mv' p) ->
+  (forall p, In p So -> dat p = dat' p /\ err p = err' p /\ bkg p = bkg' p) ->
+  build l ny nx L Sd mv So oy ox dat err bkg he hb =
+  build l ny nx L Sd mv' So oy ox dat' err' bkg' he hb.
+Proof.
+  intros Hmv Ho.
+  assert (E1 : map (fun p => valz (dat p)) So = map (fun p => valz (dat' p)) So).
+  { apply map_ext_in. intros p Hp. destruct (Ho p Hp) as (-> & _). reflexivity. }
+  assert (E2 : map (fun p => sq (err p)) So = map (fun p => sq (err' p)) So).
+  { apply map_ext_in. intros p Hp. destruct (Ho p Hp) as (_ & -> & _). reflexivity. }
+  assert (E3 : map bkg So = map bkg' So).
+  { apply map_ext_in. intros p Hp. destruct (Ho p Hp) as (_ & _ & ->). reflexivity. }
+  assert (E4 : b_tagged So dat = b_tagged So dat').
+  { unfold b_tagged. apply map_ext_in. intros p Hp. destruct (Ho p Hp) as (-> & _). reflexivity. }
+  unfold build, b_moments, b_cen, b_ccen, b_cov, b_covden, b_margin, b_covnum, b_m00,
+    b_flux, b_fluxerr2, b_bkgmean, b_bkgsum, b_argmin, b_argmax.
+  cbn [map]. rewrite !(b_moment_ext ny nx L mv mv' Hmv), E1, E2, E3, E4. reflexivity.
+Qed.
+
+(* [I] and [I'] have the same pixels of label [l] and the same array values on them *)
+Definition same_on_label (ny nx : nat) (I I' : inputs) (l : Z) : Prop :=
+  (forall y x, y < ny -> x < nx -> (i_seg I y x = l <-> i_seg I' y x = l)) /\
+  (forall y x, y < ny -> x < nx -> i_seg I y x = l ->
+     dataat I (y, x) = dataat I' (y, x) /\ convat I (y, x) = convat I' (y, x) /\
+     maskat I (y, x) = maskat I' (y, x) /\ errat I (y, x) = errat I' (y, x) /\
+     bkgat I (y, x) = bkgat I' (y, x)) /\
+  has_err I = has_err I' /\ has_bkg I = has_bkg I'.
+
+Lemma same_lab ny nx I I' l : same_on_label ny nx I I' l ->
+  lab_pixels ny nx I l = lab_pixels ny nx I' l.
+Proof.
+  intros (Hs & _). unfold lab_pixels. apply filter_ext_in. intros [y x] Hp.
+  unfold grid in Hp. apply in_coords_box in Hp. cbn in Hp.
+  unfold haslab. cbn [fst snd]. specialize (Hs y x ltac:(lia) ltac:(lia)).
+  destruct (Z.eqb_spec (i_seg I y x) l) as [E|E], (Z.eqb_spec (i_seg I' y x) l) as [E'|E']; tauto.
+Qed.
+
+Lemma same_vals ny nx I I' l : same_on_label ny nx I I' l ->
+  forall p, In p (lab_pixels ny nx I l) ->
+     dataat I p = dataat I' p /\ convat I p = convat I' p /\
+     maskat I p = maskat I' p /\ errat I p = errat I' p /\ bkgat I p = bkgat I' p.
+Proof.
+  intros (_ & Hv & _) [y x] Hp. apply lab_in in Hp. cbn [fst snd] in Hp.
+  destruct Hp as (Hy & Hx & Hl). unfold haslab in Hl. cbn [fst snd] in Hl. apply Z.eqb_eq in Hl.
+  apply Hv; assumption.
+Qed.
+
+Lemma same_S ny nx I I' l : same_on_label ny nx I I' l ->
+  g_S (lab_pixels ny nx I l) (dataat I) (maskat I) = g_S (lab_pixels ny nx I' l) (dataat I') (maskat I').
+Proof.
+  intros H. rewrite <- (same_lab _ _ _ _ _ H). unfold g_S. apply filter_ext_in. intros p Hp.
+  destruct (same_vals _ _ _ _ _ H p Hp) as (Hd & _ & Hm & _). unfold g_good. rewrite Hd, Hm. reflexivity.
+Qed.
+
+Theorem row_local_proof ny nx own own' det det' l :
+  same_on_label ny nx own own' l -> same_on_label ny nx det det' l ->
+  mkrow ny nx own det l = mkrow ny nx own' det' l.
+Proof.
+  intros Ho Hd. rewrite !mkrow_is_build. unfold def_row.
+  rewrite <- (same_S _ _ _ _ _ Ho), <- (same_S _ _ _ _ _ Hd),
+          <- (same_lab _ _ _ _ _ Ho), <- (same_lab _ _ _ _ _ Hd).
+  pose proof Ho as (_ & _ & He & Hb). rewrite <- He, <- Hb.
+  apply build_ext.
+  - intros p Hp. destruct (same_vals _ _ _ _ _ Hd p Hp) as (_ & Hc & Hm & _).
+    unfold g_mv. rewrite Hc, Hm. reflexivity.
+  - intros p Hp. unfold g_S in Hp. apply filter_In in Hp. destruct Hp as [Hp _].
+    destruct (same_vals _ _ _ _ _ Ho p Hp) as (H1 & _ & _ & H4 & H5). auto.
+Qed.
+
+(* 4b. relabelling *)
+Definition relabel (pi : Z -> Z) (I : inputs) : inputs :=
+  {| i_seg := fun y x => pi (i_seg I y x); i_data := i_data I; i_conv := i_conv I;
+     i_err := i_err I; i_bkg := i_bkg I; i_mask := i_mask I |}.
+
+Definition set_label (l : Z) (r : row) : row := {|
+  r_label := l; r_bbox := r_bbox r; r_segment_area := r_segment_area r; r_area := r_area r;
+  r_moments := r_moments r; r_cutout_centroid := r_cutout_centroid r; r_centroid := r_centroid r;
+  r_covariance := r_covariance r; r_cov_den := r_cov_den r; r_cov_margin_ok := r_cov_margin_ok r;
+  r_flux := r_flux r; r_fluxerr2 := r_fluxerr2 r; r_min := r_min r; r_max := r_max r;
+  r_cminidx := r_cminidx r; r_cmaxidx := r_cmaxidx r; r_minidx := r_minidx r; r_maxidx := r_maxidx r;
+  r_bkg_sum := r_bkg_sum r; r_bkg_mean := r_bkg_mean r |}.
+
+Lemma relabel_lab pi ny nx I l : (forall a, pi a = pi l -> a = l) ->
+  lab_pixels ny nx (relabel pi I) (pi l) = lab_pixels ny nx I l.
+Proof.
+  intros Hinj. unfold lab_pixels. apply filter_ext. intros p. unfold haslab, relabel. cbn [i_seg].
+  destruct (Z.eqb_spec (i_seg I (fst p) (snd p)) l) as [E|E].
+  - rewrite E. apply Z.eqb_refl.
+  - apply Z.eqb_neq. intros E'. apply E, Hinj, E'.
+Qed.
+
+Theorem relabel_row ny nx own det l pi : (forall a, pi a = pi l -> a = l) ->
+  mkrow ny nx (relabel pi own) (relabel pi det) (pi l) = set_label (pi l) (mkrow ny nx own det l).
+Proof.
+  intros Hinj. rewrite !mkrow_is_build. unfold def_row. rewrite !relabel_lab by exact Hinj. reflexivity.
+Qed.
+
+Lemma rows_labels ny nx own det labels :
+  map r_label (catalog_rows ny nx own det labels) = labels.
+Proof.
+  unfold catalog_rows. rewrite map_map. cbn [r_label mkrow]. apply map_id.
+Qed.
+
+Lemma rows_nth ny nx own det labels i l :
+  nth_error labels i = Some l ->
+  nth_error (catalog_rows ny nx own det labels) i =
+  Some (mkrow ny nx own (match det with None => own | Some d => d end) l).
+Proof.
+  intros H. unfold catalog_rows. apply map_nth_error. exact H.
+Qed.
+
+Lemma rows_perm ny nx own det labels labels' : Permutation labels labels' ->
+  Permutation (catalog_rows ny nx own det labels) (catalog_rows ny nx own det labels').
+Proof. intros H. unfold catalog_rows. apply Permutation_map. exact H. Qed.
+
+Theorem relabel_catalog ny nx own det labels pi : (forall a b, pi a = pi b -> a = b) ->
+  catalog_rows ny nx (relabel pi own) (option_map (relabel pi) det) (map pi labels) =
+  map (fun r => set_label (pi (r_label r)) r) (catalog_rows ny nx own det labels).
+Proof.
+  intros Hinj. unfold catalog_rows. rewrite !map_map. apply map_ext. intros l.
+  cbn [r_label mkrow]. destruct det as [d|]; cbn [option_map]; apply relabel_row; intros a; apply Hinj.
+Qed.
+
+(* 4c. a completely masked source *)
+Lemma zsum_map_zero {A} (t : A -> Z) l : (forall x, In x l -> t x = 0%Z) -> zsum (map t l) = 0%Z.
+Proof.
+  induction l as [|a l IH]; intros H; [reflexivity|]. cbn [map]. rewrite zsum_cons, (H a (or_introl eq_refl)), IH.
+  - reflexivity.
+  - intros x Hx. apply H. right; exact Hx.
+Qed.
+
+Theorem all_masked_own ny nx own det l :
+  (forall p, In p (lab_pixels ny nx own l) -> maskat own p = true \/ dataat own p = None) ->
+  let r := mkrow ny nx own det l in
+  r_flux r = None /\ r_fluxerr2 r = None /\ r_min r = None /\ r_max r = None /\
+  r_cminidx r = None /\ r_cmaxidx r = None /\ r_minidx r = None /\ r_maxidx r = None /\
+  r_bkg_sum r = None /\ r_bkg_mean r = None.
+Proof.
+  intros H r. subst r. rewrite mkrow_is_build. unfold def_row.
+  assert (E : g_S (lab_pixels ny nx own l) (dataat own) (maskat own) = []).
+  { apply filter_nil_all. intros p Hp. unfold g_good. destruct (H p Hp) as [-> | ->]; [reflexivity|].
+    cbn. apply andb_false_r. }
+  rewrite E. unfold build. cbn [r_flux r_fluxerr2 r_min r_max r_cminidx r_cmaxidx r_minidx r_maxidx r_bkg_sum r_bkg_mean].
+  unfold b_flux, b_fluxerr2, b_bkgmean, b_bkgsum, b_argmin, b_argmax, b_tagged. cbn [isnil map arg_ext option_map].
+  destruct (has_err own), (has_bkg own); repeat split; reflexivity.
+Qed.
+
+Theorem all_masked_det ny nx own det l :
+  (forall p, In p (lab_pixels ny nx det l) -> maskat det p = true \/ dataat det p = None) ->
+  r_area (mkrow ny nx own det l) = None.
+Proof.
+  intros H. rewrite mkrow_is_build. unfold def_row, build. cbn [r_area].
+  assert (E : g_S (lab_pixels ny nx det l) (dataat det) (maskat det) = []).
+  { apply filter_nil_all. intros p Hp. unfold g_good. destruct (H p Hp) as [-> | ->]; [reflexivity|].
+    cbn. apply andb_false_r. }
+  rewrite E. reflexivity.
+Qed.
+
+Theorem all_masked_moments ny nx own det l :
+  (forall p, In p (lab_pixels ny nx det l) -> maskat det p = true) ->
+  let r := mkrow ny nx own det l in
+  r_cutout_centroid r = None /\ r_centroid r = None /\ r_covariance r = None.
+Proof.
+  intros H r. subst r. rewrite mkrow_is_build. unfold def_row, build.
+  cbn [r_cutout_centroid r_centroid r_covariance].
+  assert (E : b_m00 ny nx (lab_pixels ny nx det l) (g_mv (convat det) (maskat det)) = 0%Z).
+  { unfold b_m00, b_moment. apply zsum_map_zero. intros p Hp. unfold g_mv. rewrite (H p Hp).
+    destruct (convat det p) as [v|]; [rewrite orb_true_r|]; ring. }
+  unfold b_cen, b_ccen, b_cov. rewrite E. cbn. auto.
+Qed.
+
+(* conversely a source with one unmasked finite pixel is measured *)
+Theorem measured_is_number ny nx own det l p :
+  In p (lab_pixels ny nx own l) -> maskat own p = false -> dataat own p <> None ->
+  let r := mkrow ny nx own det l in
+  r_flux r <> None /\ r_min r <> None /\ r_max r <> None /\ r_minidx r <> None /\ r_maxidx r <> None.
+Proof.
+  intros Hp Hm Hd r. subst r. rewrite mkrow_is_build. unfold def_row.
+  assert (E : In p (g_S (lab_pixels ny nx own l) (dataat own) (maskat own))).
+  { apply filter_In. split; [exact Hp|]. unfold g_good. rewrite Hm. destruct (dataat own p); [reflexivity|congruence]. }
+  destruct (g_S (lab_pixels ny nx own l) (dataat own) (maskat own)) as [|q S'] eqn:ES; [destruct E|].
+  unfold build. cbn [r_flux r_min r_max r_minidx r_maxidx].
+  unfold b_flux, b_argmin, b_argmax, b_tagged. cbn [isnil map arg_ext option_map].
+  repeat split; discriminate.
+Qed.
+
+(* 4d. integer translation *)
+Definition sh (dy dx : nat) (p : pix) : pix := (fst p + dy, snd p + dx).
+
+Definition shift_row (dy dx : nat) (r : row) : row := {|
+  r_label := r_label r;
+  r_bbox := (let '(a, b, c, d) := r_bbox r in
+             (a + Z.of_nat dx, b + Z.of_nat dx, c + Z.of_nat dy, d + Z.of_nat dy))%Z;
+  r_segment_area := r_segment_area r; r_area := r_area r;
+  r_moments := r_moments r; r_cutout_centroid := r_cutout_centroid r;
+  r_centroid := option_map (fun c : (Z * Z) * (Z * Z) =>
+                  ((fst (fst c) + Z.of_nat dx * snd (fst c), snd (fst c)),
+                   (fst (snd c) + Z.of_nat dy * snd (snd c), snd (snd c)))%Z) (r_centroid r);
+  r_covariance := r_covariance r; r_cov_den := r_cov_den r; r_cov_margin_ok := r_cov_margin_ok r;
+  r_flux := r_flux r; r_fluxerr2 := r_fluxerr2 r; r_min := r_min r; r_max := r_max r;
+  r_cminidx := r_cminidx r; r_cmaxidx := r_cmaxidx r;
+  r_minidx := option_map (fun i : Z * Z => (fst i + Z.of_nat dy, snd i + Z.of_nat dx)%Z) (r_minidx r);
+  r_maxidx := option_map (fun i : Z * Z => (fst i + Z.of_nat dy, snd i + Z.of_nat dx)%Z) (r_maxidx r);
+  r_bkg_sum := r_bkg_sum r; r_bkg_mean := r_bkg_mean r |}.
+
+Lemma minl_default d d' l : l <> [] -> (forall y, In y l -> y <= d) -> (forall y, In y l -> y <= d') ->
+  minl d l = minl d' l.
+Proof.
+  induction l as [|a l IH]; intros Hne H1 H2; [congruence|]. rewrite !minl_cons.
+  destruct l as [|b l'].
+  - cbn. assert (a <= d) by (apply H1; left; reflexivity). assert (a <= d') by (apply H2; left; reflexivity). lia.
+  - rewrite (IH ltac:(discriminate)); [reflexivity| |]; intros y Hy; [apply H1|apply H2]; right; exact Hy.
+Qed.
+Lemma minl_add d k l : minl (d + k) (map (fun y => y + k) l) = minl d l + k.
+Proof.
+  induction l as [|a l IH]; [reflexivity|]. cbn [map]. rewrite !minl_cons, IH. lia.
+Qed.
+Lemma maxl_add k l : l <> [] -> maxl (map (fun y => y + k) l) = maxl l + k.
+Proof.
+  induction l as [|a l IH]; intros Hne; [congruence|]. cbn [map]. rewrite !maxl_cons.
+  destruct l as [|b l']; [cbn; lia|]. rewrite IH by discriminate. lia.
+Qed.
+
+Lemma seq_add a k n : seq (a + k) n = map (fun i => i + k) (seq a n).
+Proof.
+  revert a. induction n as [|n IH]; intros a; [reflexivity|]. cbn [seq map]. f_equal. apply (IH (S a)).
+Qed.
+Lemma flat_map_map {A B C} (f : A -> B) (g : B -> list C) l :
+  flat_map g (map f l) = flat_map (fun a => g (f a)) l.
+Proof. induction l as [|a l IH]; [reflexivity|]. cbn. rewrite IH. reflexivity. Qed.
+Lemma map_flat_map {A B C} (f : B -> C) (g : A -> list B) l :
+  map f (flat_map g l) = flat_map (fun a => map f (g a)) l.
+Proof. induction l as [|a l IH]; [reflexivity|]. cbn. rewrite map_app, IH. reflexivity. Qed.
+
+Lemma coords_box_shift dy dx y0 h x0 w :
+  coords_box (y0 + dy) h (x0 + dx) w = map (sh dy dx) (coords_box y0 h x0 w).
+Proof.
+  unfold coords_box. rewrite !seq_add, flat_map_map, map_flat_map. apply flat_map_ext. intros y.
+  rewrite !map_map. reflexivity.
+Qed.
+
+Lemma filter_box_restrict' (f : pix -> bool) ny nx y0 y1 x0 x1 :
+  y0 <= y1 -> y1 <= ny -> x0 <= x1 -> x1 <= nx ->
+  (forall p, fst p < ny -> snd p < nx -> f p = true -> y0 <= fst p < y1 /\ x0 <= snd p < x1) ->
+  filter f (coords_box 0 ny 0 nx) = filter f (coords_box y0 (y1 - y0) x0 (x1 - x0)).
+Proof.
+  intros Hy Hyn Hx Hxn Hf.
+  set (f' := fun p : pix => f p && (fst p <? ny) && (snd p <? nx)).
+  assert (E : forall y0' h x0' w, y0' + h <= ny -> x0' + w <= nx ->
+             filter f (coords_box y0' h x0' w) = filter f' (coords_box y0' h x0' w)).
+  { intros y0' h x0' w H1 H2. apply filter_ext_in. intros p Hp. apply in_coords_box in Hp. unfold f'.
+    assert (Hy' : fst p < ny) by lia. assert (Hx' : snd p < nx) by lia.
+    apply Nat.ltb_lt in Hy', Hx'. rewrite Hy', Hx', !andb_true_r. reflexivity. }
+  rewrite (E 0 ny 0 nx), (E y0 (y1 - y0) x0 (x1 - x0)) by lia.
+  apply filter_box_restrict; try assumption.
+  intros p Hp. unfold f' in Hp. apply andb_true_iff in Hp. destruct Hp as [Hp Hx'].
+  apply andb_true_iff in Hp. destruct Hp as [Hp Hy']. apply Nat.ltb_lt in Hx', Hy'. apply Hf; assumption.
+Qed.
+
+(* [I'] on the ny' x nx' canvas is [I] translated by (dy, dx), as far as label [l] goes *)
+Definition shifted_on_label (ny nx ny' nx' dy dx : nat) (I I' : inputs) (l : Z) : Prop :=
+  ny + dy <= ny' /\ nx + dx <= nx' /\
+  (forall y x, y < ny' -> x < nx' ->
+     (i_seg I' y x = l <->
+      dy <= y /\ dx <= x /\ y - dy < ny /\ x - dx < nx /\ i_seg I (y - dy) (x - dx) = l)) /\
+  (forall y x, y < ny -> x < nx -> i_seg I y x = l ->
+     dataat I' (y + dy, x + dx) = dataat I (y, x) /\ convat I' (y + dy, x + dx) = convat I (y, x) /\
+     maskat I' (y + dy, x + dx) = maskat I (y, x) /\ errat I' (y + dy, x + dx) = errat I (y, x) /\
+     bkgat I' (y + dy, x + dx) = bkgat I (y, x)) /\
+  has_err I' = has_err I /\ has_bkg I' = has_bkg I.
+
+Lemma shift_lab ny nx ny' nx' dy dx I I' l : shifted_on_label ny nx ny' nx' dy dx I I' l ->
+  lab_pixels ny' nx' I' l = map (sh dy dx) (lab_pixels ny nx I l).
+Proof.
+  intros (Hny & Hnx & Hs & _). unfold lab_pixels, grid.
+  rewrite (filter_box_restrict' _ ny' nx' dy (dy + ny) dx (dx + nx)); try lia.
+  - replace (dy + ny - dy) with ny by lia. replace (dx + nx - dx) with nx by lia.
+    change dy with (0 + dy) at 1. change dx with (0 + dx) at 1.
+    rewrite coords_box_shift, filter_map_comm. f_equal. apply filter_ext_in.
+    intros [y x] Hp. apply in_coords_box in Hp. cbn [fst snd] in Hp.
+    unfold haslab, sh. cbn [fst snd].
+    specialize (Hs (y + dy) (x + dx) ltac:(lia) ltac:(lia)).
+    replace (y + dy - dy) with y in Hs by lia. replace (x + dx - dx) with x in Hs by lia.
+    destruct (Z.eqb_spec (i_seg I' (y + dy) (x + dx)) l) as [E|E], (Z.eqb_spec (i_seg I y x) l) as [E'|E'];
+      try reflexivity.
+    + exfalso. apply E'. apply Hs. exact E.
+    + exfalso. apply E. apply Hs. repeat split; solve [lia | exact E'].
+  - intros [y x] Hy Hx Hl. cbn [fst snd] in *. unfold haslab in Hl. cbn [fst snd] in Hl.
+    apply Z.eqb_eq in Hl. apply (Hs y x Hy Hx) in Hl. lia.
+Qed.
+
+Lemma shift_vals ny nx ny' nx' dy dx I I' l : shifted_on_label ny nx ny' nx' dy dx I I' l ->
+  forall p, In p (lab_pixels ny nx I l) ->
+    dataat I' (sh dy dx p) = dataat I p /\ convat I' (sh dy dx p) = convat I p /\
+    maskat I' (sh dy dx p) = maskat I p /\ errat I' (sh dy dx p) = errat I p /\
+    bkgat I' (sh dy dx p) = bkgat I p.
+Proof.
+  intros (_ & _ & _ & Hv & _) [y x] Hp. apply lab_in in Hp. cbn [fst snd] in Hp.
+  destruct Hp as (Hy & Hx & Hl). unfold haslab in Hl. cbn [fst snd] in Hl. apply Z.eqb_eq in Hl.
+  unfold sh. cbn [fst snd]. apply Hv; assumption.
+Qed.
+
+Lemma shift_S ny nx ny' nx' dy dx I I' l : shifted_on_label ny nx ny' nx' dy dx I I' l ->
+  g_S (map (sh dy dx) (lab_pixels ny nx I l)) (dataat I') (maskat I') =
+  map (sh dy dx) (g_S (lab_pixels ny nx I l) (dataat I) (maskat I)).
+Proof.
+  intros H. unfold g_S. rewrite filter_map_comm. f_equal. apply filter_ext_in. intros p Hp.
+  destruct (shift_vals _ _ _ _ _ _ _ _ _ H p Hp) as (Hd & _ & Hm & _). unfold g_good. rewrite Hd, Hm. reflexivity.
+Qed.
+
+Lemma arg_first_map (better : Z -> Z -> bool) (f : pix -> pix) best l :
+  arg_first better (f (fst best), snd best) (map (fun a => (f (fst a), snd a)) l) =
+  (fun a => (f (fst a), snd a)) (arg_first better best l).
+Proof.
+  revert best. induction l as [|[p v] l IH]; intros best; [reflexivity|].
+  cbn [map arg_first fst snd]. destruct (better v (snd best)); [apply (IH (p, v))|apply IH].
+Qed.
+Lemma arg_ext_map (better : Z -> Z -> bool) (f : pix -> pix) l :
+  arg_ext better (map (fun a => (f (fst a), snd a)) l) =
+  option_map (fun a => (f (fst a), snd a)) (arg_ext better l).
+Proof.
+  destruct l as [|a l]; [reflexivity|]. cbn [map arg_ext option_map]. f_equal. apply arg_first_map.
+Qed.
+
+Section BuildShift.
+Variables (l : Z) (ny nx ny' nx' dy dx : nat) (L Sd : list pix) (mv mv' : pix -> Z).
+Variables (So : list pix) (oy ox : nat) (dat dat' err err' bkg bkg' : pix -> option Z) (he hb : bool).
+Hypothesis HL : L <> [].
+Hypothesis Hin : forall p, In p L -> fst p < ny /\ snd p < nx.
+Hypothesis Hny : ny + dy <= ny'.
+Hypothesis Hnx : nx + dx <= nx'.
+Hypothesis Hmv : forall p, In p L -> mv' (sh dy dx p) = mv p.
+Hypothesis Ho : forall p, In p So ->
+  dat' (sh dy dx p) = dat p /\ err' (sh dy dx p) = err p /\ bkg' (sh dy dx p) = bkg p.
+Let L' := map (sh dy dx) L.
+
+Lemma map_fst_sh : map fst L' = map (fun y => y + dy) (map fst L).
+Proof. unfold L'. rewrite !map_map. reflexivity. Qed.
+Lemma map_snd_sh : map snd L' = map (fun x => x + dx) (map snd L).
+Proof. unfold L'. rewrite !map_map. reflexivity. Qed.
+
+Lemma sh_y0 : b_y0 ny' L' = b_y0 ny L + dy.
+Proof.
+  unfold b_y0. rewrite map_fst_sh, <- minl_add. apply minl_default.
+  - destruct L; [congruence|discriminate].
+  - intros y Hy. apply in_map_iff in Hy. destruct Hy as (y' & <- & Hy).
+    apply in_map_iff in Hy. destruct Hy as (p & <- & Hp). apply Hin in Hp. lia.
+  - intros y Hy. apply in_map_iff in Hy. destruct Hy as (y' & <- & Hy).
+    apply in_map_iff in Hy. destruct Hy as (p & <- & Hp). apply Hin in Hp. lia.
+Qed.
+Lemma sh_x0 : b_x0 nx' L' = b_x0 nx L + dx.
+Proof.
+  unfold b_x0. rewrite map_snd_sh, <- minl_add. apply minl_default.
+  - destruct L; [congruence|discriminate].
+  - intros y Hy. apply in_map_iff in Hy. destruct Hy as (y' & <- & Hy).
+    apply in_map_iff in Hy. destruct Hy as (p & <- & Hp). apply Hin in Hp. lia.
+  - intros y Hy. apply in_map_iff in Hy. destruct Hy as (y' & <- & Hy).
+    apply in_map_iff in Hy. destruct Hy as (p & <- & Hp). apply Hin in Hp. lia.
+Qed.
+Lemma sh_y1 : b_y1 L' = b_y1 L + dy.
+Proof.
+  unfold b_y1. rewrite map_fst_sh, <- maxl_add.
+  - apply f_equal. rewrite !map_map. apply map_ext. intros a. reflexivity.
+  - destruct L; [congruence|discriminate].
+Qed.
+Lemma sh_x1 : b_x1 L' = b_x1 L + dx.
+Proof.
+  unfold b_x1. rewrite map_snd_sh, <- maxl_add.
+  - apply f_equal. rewrite !map_map. apply map_ext. intros a. reflexivity.
+  - destruct L; [congruence|discriminate].
+Qed.
+
+Lemma sh_rel p : b_rel ny' nx' L' (sh dy dx p) = b_rel ny nx L p.
+Proof.
+  unfold b_rel. rewrite sh_y0, sh_x0. unfold sh. cbn [fst snd]. f_equal; lia.
+Qed.
+
+Lemma sh_moment a b : b_moment ny' nx' L' mv' a b = b_moment ny nx L mv a b.
+Proof.
+  unfold b_moment. unfold L'. rewrite map_map. fold L'. apply f_equal. apply map_ext_in. intros p Hp.
+  rewrite sh_rel, (Hmv p Hp). reflexivity.
+Qed.
+
+Lemma sh_moments : b_moments ny' nx' L' mv' = b_moments ny nx L mv.
+Proof. unfold b_moments. cbn [map]. rewrite !sh_moment. reflexivity. Qed.
+Lemma sh_m00 : b_m00 ny' nx' L' mv' = b_m00 ny nx L mv.
+Proof. apply sh_moment. Qed.
+Lemma sh_ccen : b_ccen ny' nx' L' mv' = b_ccen ny nx L mv.
+Proof. unfold b_ccen. rewrite sh_m00, !sh_moment. reflexivity. Qed.
+Lemma sh_covnum : b_covnum ny' nx' L' mv' = b_covnum ny nx L mv.
+Proof. unfold b_covnum. rewrite sh_m00, !sh_moment. reflexivity. Qed.
+Lemma sh_cov : b_cov ny' nx' L' mv' = b_cov ny nx L mv.
+Proof. unfold b_cov. rewrite sh_m00, sh_covnum. reflexivity. Qed.
+Lemma sh_covden : b_covden ny' nx' L' mv' = b_covden ny nx L mv.
+Proof. unfold b_covden. rewrite sh_m00. reflexivity. Qed.
+Lemma sh_margin : b_margin ny' nx' L' mv' = b_margin ny nx L mv.
+Proof. unfold b_margin. rewrite sh_m00, sh_covnum. reflexivity. Qed.
+Lemma sh_cen : b_cen ny' nx' L' mv' =
+  option_map (fun c : (Z * Z) * (Z * Z) =>
+     ((fst (fst c) + Z.of_nat dx * snd (fst c), snd (fst c)),
+      (fst (snd c) + Z.of_nat dy * snd (snd c), snd (snd c)))%Z) (b_cen ny nx L mv).
+Proof.
+  unfold b_cen. rewrite sh_ccen, sh_x0, sh_y0.
+  destruct (b_ccen ny nx L mv) as [[[xn d] [yn d']]|]; [|reflexivity].
+  cbn [option_map fst snd]. rewrite !Nat2Z.inj_add. f_equal. f_equal; f_equal; ring.
+Qed.
+
+Let So' := map (sh dy dx) So.
+Lemma sh_flux : b_flux So' dat' = b_flux So dat.
+Proof.
+  unfold b_flux, So'. rewrite isnil_map, map_map. destruct (isnil So); [reflexivity|].
+  do 2 f_equal. apply map_ext_in. intros p Hp. destruct (Ho p Hp) as (-> & _). reflexivity.
+Qed.
+Lemma sh_fluxerr2 : b_fluxerr2 So' err' he = b_fluxerr2 So err he.
+Proof.
+  unfold b_fluxerr2, So'. rewrite isnil_map, map_map. destruct he, (isnil So); try reflexivity.
+  f_equal. apply map_ext_in. intros p Hp. destruct (Ho p Hp) as (_ & -> & _). reflexivity.
+Qed.
+Lemma sh_bkgsum : b_bkgsum So' bkg' hb = b_bkgsum So bkg hb.
+Proof.
+  unfold b_bkgsum, So'. rewrite isnil_map, map_map. destruct hb, (isnil So); try reflexivity.
+  f_equal. apply map_ext_in. intros p Hp. destruct (Ho p Hp) as (_ & _ & ->). reflexivity.
+Qed.
+Lemma sh_bkgmean : b_bkgmean So' bkg' hb = b_bkgmean So bkg hb.
+Proof. unfold b_bkgmean. rewrite sh_bkgsum. unfold So'. rewrite map_length. reflexivity. Qed.
+Lemma sh_tagged : b_tagged So' dat' = map (fun a => (sh dy dx (fst a), snd a)) (b_tagged So dat).
+Proof.
+  unfold b_tagged, So'. rewrite !map_map. apply map_ext_in. intros p Hp. cbn [fst snd].
+  destruct (Ho p Hp) as (-> & _). reflexivity.
+Qed.
+Lemma sh_argmin : b_argmin So' dat' = option_map (fun a => (sh dy dx (fst a), snd a)) (b_argmin So dat).
+Proof. unfold b_argmin. rewrite sh_tagged. apply arg_ext_map. Qed.
+Lemma sh_argmax : b_argmax So' dat' = option_map (fun a => (sh dy dx (fst a), snd a)) (b_argmax So dat).
+Proof. unfold b_argmax. rewrite sh_tagged. apply arg_ext_map. Qed.
+
+Lemma sh_orel p : o_rel (oy + dy) (ox + dx) (sh dy dx p) = o_rel oy ox p.
+Proof. unfold o_rel, sh. cbn [fst snd]. f_equal; lia. Qed.
+Lemma sh_oadd i : o_add (oy + dy) (ox + dx) i =
+  (fst (o_add oy ox i) + Z.of_nat dy, snd (o_add oy ox i) + Z.of_nat dx)%Z.
+Proof. unfold o_add. cbn [fst snd]. f_equal; lia. Qed.
+
+Lemma build_shift :
+  build l ny' nx' L' (map (sh dy dx) Sd) mv' So' (oy + dy) (ox + dx) dat' err' bkg' he hb =
+  shift_row dy dx (build l ny nx L Sd mv So oy ox dat err bkg he hb).
+Proof.
+  unfold shift_row, build.
+  cbn [r_label r_bbox r_segment_area r_area r_moments r_cutout_centroid r_centroid r_covariance
+       r_cov_den r_cov_margin_ok r_flux r_fluxerr2 r_min r_max r_cminidx r_cmaxidx r_minidx r_maxidx
+       r_bkg_sum r_bkg_mean].
+  rewrite sh_moments, sh_ccen, sh_cen, sh_cov, sh_covden, sh_margin, sh_flux, sh_fluxerr2,
+    sh_bkgsum, sh_bkgmean, sh_argmin, sh_argmax, sh_x0, sh_x1, sh_y0, sh_y1.
+  unfold L'. rewrite !map_length. unfold o_area. rewrite isnil_map, map_length.
+  assert (Ebb : forall a b c d : nat,
+     (Z.of_nat (a + dx), Z.of_nat (b + dx) - 1, Z.of_nat (c + dy), Z.of_nat (d + dy) - 1)%Z =
+     (Z.of_nat a + Z.of_nat dx, Z.of_nat b - 1 + Z.of_nat dx, Z.of_nat c + Z.of_nat dy,
+      Z.of_nat d - 1 + Z.of_nat dy)%Z).
+  { intros a b c d. rewrite !Nat2Z.inj_add. repeat apply f_equal2; ring. }
+  rewrite Ebb.
+  destruct (b_argmin So dat) as [[pm vm]|], (b_argmax So dat) as [[pM vM]|];
+    cbn [option_map fst snd]; rewrite ?sh_orel, ?sh_oadd; reflexivity.
+Qed.
+End BuildShift.
+
+Theorem row_shift_proof ny nx ny' nx' dy dx own own' det det' l :
+  shifted_on_label ny nx ny' nx' dy dx own own' l ->
+  shifted_on_label ny nx ny' nx' dy dx det det' l ->
+  lab_pixels ny nx own l <> [] -> lab_pixels ny nx det l <> [] ->
+  mkrow ny' nx' own' det' l = shift_row dy dx (mkrow ny nx own det l).
+Proof.
+  intros Ho Hd Hno Hnd. rewrite !mkrow_is_build. unfold def_row.
+  rewrite (shift_lab _ _ _ _ _ _ _ _ _ Ho), (shift_lab _ _ _ _ _ _ _ _ _ Hd),
+          (shift_S _ _ _ _ _ _ _ _ _ Ho), (shift_S _ _ _ _ _ _ _ _ _ Hd).
+  pose proof Ho as (Hny & Hnx & _ & _ & -> & ->).
+  assert (Hin : forall I p, In p (lab_pixels ny nx I l) -> fst p < ny /\ snd p < nx).
+  { intros I p Hp. apply lab_in in Hp. tauto. }
+  rewrite (sh_y0 ny nx ny' nx' dy dx _ (fun _ => 0%Z) (fun _ => 0%Z) Hno (Hin own) Hny Hnx (fun _ _ => eq_refl)),
+          (sh_x0 ny nx ny' nx' dy dx _ (fun _ => 0%Z) (fun _ => 0%Z) Hno (Hin own) Hny Hnx (fun _ _ => eq_refl)).
+  apply build_shift; try assumption.
+  - apply Hin.
+  - intros p Hp. destruct (shift_vals _ _ _ _ _ _ _ _ _ Hd p Hp) as (_ & Hc & Hm & _).
+    unfold g_mv. rewrite Hc, Hm. reflexivity.
+  - intros p Hp. unfold g_S in Hp. apply filter_In in Hp. destruct Hp as [Hp _].
+    destruct (shift_vals _ _ _ _ _ _ _ _ _ Ho p Hp) as (H1 & _ & _ & H4 & H5). auto.
+Qed.
+
+(* ------------------------------------------------------------------ *)
+(* 5a. extrema: value and first occurrence                             *)
+(* ------------------------------------------------------------------ *)
+Section ArgFirst.
+Variable better : Z -> Z -> bool.
+(* [better] is a strict total order on the values *)
+Hypothesis nb_trans : forall a b c, better a b = false -> better b c = false -> better a c = false.
+Hypothesis b_trans : forall a b c, better a b = true -> better b c = true -> better a c = true.
+Hypothesis b_irr : forall a, better a a = false.
+Hypothesis b_total : forall a b, better a b = false -> better b a = false -> a = b.
+
+Lemma b_mixed a b c : better a b = true -> better c b = false -> better a c = true.
+Proof.
+  intros H1 H2. destruct (better a c) eqn:E; [reflexivity|].
+  rewrite (nb_trans a c b E H2) in H1. discriminate.
+Qed.
+
+(* [a] is the first best element of [l] *)
+Definition first_best (l : list (pix * Z)) (a : pix * Z) : Prop :=
+  exists pre post, l = pre ++ a :: post /\
+    (forall q, In q pre -> better (snd a) (snd q) = true) /\
+    (forall q, In q post -> better (snd q) (snd a) = false).
+
+Lemma arg_first_spec best l : first_best (best :: l) (arg_first better best l).
+Proof.
+  unfold first_best. revert best. induction l as [|[p v] l IH]; intros best.
+  - exists [], []. cbn. repeat split; intros q [].
+  - cbn [arg_first]. destruct (better v (snd best)) eqn:E.
+    + destruct (IH (p, v)) as (pre & post & Heq & Hpre & Hpost).
+      set (r := arg_first better (p, v) l) in *.
+      exists (best :: pre), post. split; [cbn; rewrite Heq; reflexivity|]. split; [|exact Hpost].
+      assert (Hrv : r = (p, v) \/ better (snd r) v = true).
+      { destruct pre as [|q pre']; cbn in Heq; injection Heq as Hq Hrest.
+        - left. symmetry. exact Hq.
+        - right. apply (Hpre (p, v)). left. symmetry. exact Hq. }
+      intros q [<-|Hq]; [|apply Hpre; exact Hq].
+      destruct Hrv as [->|Hrv]; [exact E|]. apply (b_trans _ v); assumption.
+    + destruct (IH best) as (pre & post & Heq & Hpre & Hpost).
+      set (r := arg_first better best l) in *.
+      destruct pre as [|q pre']; cbn in Heq; injection Heq as Hq Hrest.
+      * exists [], ((p, v) :: post). split; [cbn; rewrite <- Hq, Hrest; reflexivity|].
+        split; [intros q []|]. intros q [<-|Hq']; [cbn; rewrite <- Hq; exact E|apply Hpost; exact Hq'].
+      * exists (best :: (p, v) :: pre'), post. split; [cbn; rewrite Hrest; reflexivity|].
+        split; [|exact Hpost].
+        assert (Hrb : better (snd r) (snd best) = true) by (apply Hpre; left; symmetry; exact Hq).
+        intros q' [<-|[<-|Hq']].
+        -- exact Hrb.
+        -- cbn. apply (b_mixed _ (snd best)); assumption.
+        -- apply Hpre. right. exact Hq'.
+Qed.
+
+Lemma arg_ext_some l : l <> [] -> exists a, arg_ext better l = Some a.
+Proof. destruct l as [|a l]; [congruence|]. intros _. eexists. reflexivity. Qed.
+
+Lemma arg_ext_spec l a : arg_ext better l = Some a -> first_best l a.
+Proof.
+  destruct l as [|b l]; [discriminate|]. cbn [arg_ext]. intros [= <-]. apply arg_first_spec.
+Qed.
+
+(* the best element is in the list and nothing is better *)
+Lemma first_best_in l a : first_best l a ->
+  In a l /\ forall q, In q l -> better (snd q) (snd a) = false.
+Proof.
+  intros (pre & post & -> & Hpre & Hpost). split; [apply in_elt|].
+  intros q Hq. apply in_app_or in Hq. destruct Hq as [Hq|[<-|Hq]].
+  - specialize (Hpre q Hq). destruct (better (snd q) (snd a)) eqn:E; [|reflexivity].
+    assert (Haa : better (snd a) (snd a) = true) by (apply (b_trans _ (snd q)); assumption).
+    rewrite b_irr in Haa. discriminate.
+  - apply b_irr.
+  - apply Hpost. exact Hq.
+Qed.
+
+(* the best VALUE depends only on the multiset of values *)
+Lemma best_value_perm l l' a a' :
+  Permutation (map snd l) (map snd l') -> first_best l a -> first_best l' a' -> snd a = snd a'.
+Proof.
+  intros HP Ha Ha'. apply first_best_in in Ha, Ha'. destruct Ha as [Hin Hb], Ha' as [Hin' Hb'].
+  assert (H1 : In (snd a) (map snd l')).
+  { apply (Permutation_in _ HP). apply in_map. exact Hin. }
+  assert (H2 : In (snd a') (map snd l)).
+  { apply (Permutation_in _ (Permutation_sym HP)). apply in_map. exact Hin'. }
+  apply in_map_iff in H1, H2. destruct H1 as (q & Eq & Hq), H2 as (q' & Eq' & Hq').
+  apply b_total.
+  - rewrite <- Eq. apply Hb'. exact Hq.
+  - rewrite <- Eq'. apply Hb. exact Hq'.
+Qed.
+
+Lemma arg_ext_value_perm l l' : Permutation (map snd l) (map snd l') ->
+  option_map snd (arg_ext better l) = option_map snd (arg_ext better l').
+Proof.
+  intros HP. destruct l as [|b l], l' as [|b' l'].
+  - reflexivity.
+  - apply Permutation_nil in HP. discriminate.
+  - apply Permutation_sym, Permutation_nil in HP. discriminate.
+  - cbn [arg_ext option_map]. f_equal.
+    apply (best_value_perm (b :: l) (b' :: l')); [exact HP| |]; apply arg_first_spec.
+Qed.
+End ArgFirst.
+
+Lemma ltb_nb_trans a b c : (a <? b)%Z = false -> (b <? c)%Z = false -> (a <? c)%Z = false.
+Proof. rewrite !Z.ltb_ge. lia. Qed.
+Lemma ltb_trans a b c : (a <? b)%Z = true -> (b <? c)%Z = true -> (a <? c)%Z = true.
+Proof. rewrite !Z.ltb_lt. lia. Qed.
+Lemma ltb_total a b : (a <? b)%Z = false -> (b <? a)%Z = false -> a = b.
+Proof. rewrite !Z.ltb_ge. lia. Qed.
+Lemma gtb_nb_trans a b c : (a >? b)%Z = false -> (b >? c)%Z = false -> (a >? c)%Z = false.
+Proof. rewrite !Z.gtb_ltb, !Z.ltb_ge. lia. Qed.
+Lemma gtb_trans a b c : (a >? b)%Z = true -> (b >? c)%Z = true -> (a >? c)%Z = true.
+Proof. rewrite !Z.gtb_ltb, !Z.ltb_lt. lia. Qed.
+Lemma gtb_irr a : (a >? a)%Z = false.
+Proof. rewrite Z.gtb_ltb. apply Z.ltb_irrefl. Qed.
+Lemma gtb_total a b : (a >? b)%Z = false -> (b >? a)%Z = false -> a = b.
+Proof. rewrite !Z.gtb_ltb, !Z.ltb_ge. lia. Qed.
+
+(* minimum: the returned pixel is in the list, carries the least value, and every
+   earlier pixel (row-major order of the list) has a strictly larger value *)
+Lemma argmin_spec l p v : arg_ext Z.ltb l = Some (p, v) ->
+  exists pre post, l = pre ++ (p, v) :: post /\
+    (forall q, In q pre -> (v < snd q)%Z) /\ (forall q, In q post -> (v <= snd q)%Z).
+Proof.
+  intros H. apply (arg_ext_spec Z.ltb ltb_nb_trans ltb_trans) in H.
+  destruct H as (pre & post & E & Hpre & Hpost). exists pre, post. split; [exact E|].
+  split; intros q Hq; [apply Z.ltb_lt, (Hpre q Hq)|apply Z.ltb_ge, (Hpost q Hq)].
+Qed.
+Lemma argmax_spec l p v : arg_ext Z.gtb l = Some (p, v) ->
+  exists pre post, l = pre ++ (p, v) :: post /\
+    (forall q, In q pre -> (snd q < v)%Z) /\ (forall q, In q post -> (snd q <= v)%Z).
+Proof.
+  intros H. apply (arg_ext_spec Z.gtb gtb_nb_trans gtb_trans) in H.
+  destruct H as (pre & post & E & Hpre & Hpost). exists pre, post. split; [exact E|].
+  split; intros q Hq.
+  - specialize (Hpre q Hq). cbn [snd] in Hpre. rewrite Z.gtb_ltb in Hpre. apply Z.ltb_lt. exact Hpre.
+  - specialize (Hpost q Hq). cbn [snd] in Hpost. rewrite Z.gtb_ltb in Hpost. apply Z.ltb_ge. exact Hpost.
+Qed.
+
+(* ------------------------------------------------------------------ *)
+(* 4e. transposition (axis swap)                                       *)
+(* ------------------------------------------------------------------ *)
+Definition sw (p : pix) : pix := (snd p, fst p).
+
+Definition transp4 (m : list (list Z)) : list (list Z) :=
+  map (fun a => map (fun b => nth a (nth b m []) 0%Z) [0; 1; 2; 3]) [0; 1; 2; 3].
+Definition swap_cen (c : (Z * Z) * (Z * Z)) : (Z * Z) * (Z * Z) := (snd c, fst c).
+Definition swap_cov (c : Z * Z * Z) : Z * Z * Z := let '(a, b, d) := c in (d, b, a).
+
+(* the row of the transposed image; the four (first-occurrence) extremum indices are not
+   covariant when the extremum is attained twice and are erased on both sides *)
+Definition tr_row (r : row) : row := {|
+  r_label := r_label r;
+  r_bbox := (let '(a, b, c, d) := r_bbox r in (c, d, a, b));
+  r_segment_area := r_segment_area r; r_area := r_area r;
+  r_moments := transp4 (r_moments r);
+  r_cutout_centroid := option_map swap_cen (r_cutout_centroid r);
+  r_centroid := option_map swap_cen (r_centroid r);
+  r_covariance := option_map swap_cov (r_covariance r);
+  r_cov_den := r_cov_den r; r_cov_margin_ok := r_cov_margin_ok r;
+  r_flux := r_flux r; r_fluxerr2 := r_fluxerr2 r; r_min := r_min r; r_max := r_max r;
+  r_cminidx := None; r_cmaxidx := None; r_minidx := None; r_maxidx := None;
+  r_bkg_sum := r_bkg_sum r; r_bkg_mean := r_bkg_mean r |}.
+Definition forget_idx (r : row) : row := {|
+  r_label := r_label r; r_bbox := r_bbox r; r_segment_area := r_segment_area r; r_area := r_area r;
+  r_moments := r_moments r; r_cutout_centroid := r_cutout_centroid r; r_centroid := r_centroid r;
+  r_covariance := r_covariance r; r_cov_den := r_cov_den r; r_cov_margin_ok := r_cov_margin_ok r;
+  r_flux := r_flux r; r_fluxerr2 := r_fluxerr2 r; r_min := r_min r; r_max := r_max r;
+  r_cminidx := None; r_cmaxidx := None; r_minidx := None; r_maxidx := None;
+  r_bkg_sum := r_bkg_sum r; r_bkg_mean := r_bkg_mean r |}.
+
+Lemma minl_perm d l l' : Permutation l l' -> minl d l = minl d l'.
+Proof. induction 1; rewrite ?minl_cons in *; lia. Qed.
+Lemma maxl_perm l l' : Permutation l l' -> maxl l = maxl l'.
+Proof. induction 1; rewrite ?maxl_cons in *; lia. Qed.
+
+Lemma osum_perm l l' : Permutation l l' -> osum l = osum l'.
+Proof.
+  induction 1 as [|x l l' HP IH|x y l|l l' l'' H1 IH1 H2 IH2].
+  - reflexivity.
+  - cbn [osum]. rewrite IH. reflexivity.
+  - cbn [osum]. destruct x as [x|], y as [y|], (osum l) as [s|]; try reflexivity. f_equal. ring.
+  - congruence.
+Qed.
+
+Lemma filter_perm {A} (f : A -> bool) l l' : Permutation l l' -> Permutation (filter f l) (filter f l').
+Proof.
+  induction 1 as [|x l l' HP IH|x y l|l l' l'' H1 IH1 H2 IH2].
+  - constructor.
+  - cbn. destruct (f x); [constructor|]; exact IH.
+  - cbn. destruct (f x), (f y); try apply Permutation_refl. constructor.
+  - eapply Permutation_trans; eassumption.
+Qed.
+
+Lemma regularise_swap fuel d2 a b c :
+  regularise fuel d2 c b a = option_map swap_cov (regularise fuel d2 a b c).
+Proof.
+  revert a c. induction fuel as [|f IH]; intros a c; cbn [regularise]; rewrite (Z.mul_comm c a).
+  - destruct (a * c - b * b <? d2 * d2)%Z; reflexivity.
+  - destruct (a * c - b * b <? d2 * d2)%Z; [apply IH|reflexivity].
+Qed.
+
+Lemma nodup_app {A} (l l' : list A) :
+  NoDup l -> NoDup l' -> (forall x, In x l -> In x l' -> False) -> NoDup (l ++ l').
+Proof.
+  induction l as [|a l IH]; intros H1 H2 H3; [exact H2|]. cbn. inversion H1 as [|a' l0 Hna Hnd]; subst.
+  constructor.
+  - intros Hin. apply in_app_or in Hin. destruct Hin as [Hin|Hin]; [exact (Hna Hin)|].
+    apply (H3 a); [left; reflexivity|exact Hin].
+  - apply IH; [exact Hnd|exact H2|]. intros x Hx Hx'. apply (H3 x); [right; exact Hx|exact Hx'].
+Qed.
+
+Lemma coords_box_nodup y0 h x0 w : NoDup (coords_box y0 h x0 w).
+Proof.
+  unfold coords_box. revert y0. induction h as [|h IH]; intros y0; [constructor|].
+  cbn [seq flat_map]. apply nodup_app.
+  - apply FinFun.Injective_map_NoDup; [|apply seq_NoDup]. intros a b [= E]. exact E.
+  - apply IH.
+  - intros p H1 H2. apply in_map_iff in H1. destruct H1 as (x & <- & _).
+    apply in_flat_map in H2. destruct H2 as (y & Hy & Hp). apply in_seq in Hy.
+    apply in_map_iff in Hp. destruct Hp as (x' & [= Ey _] & _). lia.
+Qed.
+
+(* [I'] (an nx x ny image) is the transpose of [I] (ny x nx), as far as label [l] goes *)
+Definition transposed_on_label (ny nx : nat) (I I' : inputs) (l : Z) : Prop :=
+  (forall y x, y < ny -> x < nx -> (i_seg I' x y = l <-> i_seg I y x = l)) /\
+  (forall y x, y < ny -> x < nx -> i_seg I y x = l ->
+     dataat I' (x, y) = dataat I (y, x) /\ convat I' (x, y) = convat I (y, x) /\
+     maskat I' (x, y) = maskat I (y, x) /\ errat I' (x, y) = errat I (y, x) /\
+     bkgat I' (x, y) = bkgat I (y, x)) /\
+  has_err I' = has_err I /\ has_bkg I' = has_bkg I.
+
+Lemma sw_inj : FinFun.Injective sw.
+Proof. intros [a b] [c d] [= -> ->]. reflexivity. Qed.
+
+Lemma tr_lab ny nx I I' l : transposed_on_label ny nx I I' l ->
+  Permutation (lab_pixels nx ny I' l) (map sw (lab_pixels ny nx I l)).
+Proof.
+  intros (Hs & _). apply NoDup_Permutation.
+  - unfold lab_pixels, grid. apply NoDup_filter, coords_box_nodup.
+  - apply FinFun.Injective_map_NoDup; [exact sw_inj|].
+    unfold lab_pixels, grid. apply NoDup_filter, coords_box_nodup.
+  - intros [x y]. rewrite lab_in, in_map_iff. cbn [fst snd]. unfold haslab. cbn [fst snd]. split.
+    + intros (Hx & Hy & Hl). exists (y, x). split; [reflexivity|]. apply lab_in. cbn [fst snd].
+      repeat split; try assumption. unfold haslab. cbn [fst snd].
+      apply Z.eqb_eq. apply Z.eqb_eq in Hl. apply (Hs y x Hy Hx). exact Hl.
+    + intros ([y' x'] & [= <- <-] & Hq). apply lab_in in Hq. cbn [fst snd] in Hq.
+      destruct Hq as (Hy & Hx & Hl). repeat split; try assumption.
+      unfold haslab in Hl. cbn [fst snd] in Hl.
+      apply Z.eqb_eq. apply Z.eqb_eq in Hl. apply (Hs y' x' Hy Hx). exact Hl.
+Qed.
+
+Lemma tr_vals ny nx I I' l : transposed_on_label ny nx I I' l ->
+  forall p, In p (lab_pixels ny nx I l) ->
+    dataat I' (sw p) = dataat I p /\ convat I' (sw p) = convat I p /\
+    maskat I' (sw p) = maskat I p /\ errat I' (sw p) = errat I p /\ bkgat I' (sw p) = bkgat I p.
+Proof.
+  intros (_ & Hv & _) [y x] Hp. apply lab_in in Hp. cbn [fst snd] in Hp.
+  destruct Hp as (Hy & Hx & Hl). unfold haslab in Hl. cbn [fst snd] in Hl. apply Z.eqb_eq in Hl.
+  unfold sw. cbn [fst snd]. apply Hv; assumption.
+Qed.
+
+Lemma tr_S ny nx I I' l : transposed_on_label ny nx I I' l ->
+  Permutation (g_S (lab_pixels nx ny I' l) (dataat I') (maskat I'))
+              (map sw (g_S (lab_pixels ny nx I l) (dataat I) (maskat I))).
+Proof.
+  intros H. unfold g_S.
+  eapply Permutation_trans; [apply filter_perm, (tr_lab _ _ _ _ _ H)|].
+  rewrite filter_map_comm. apply Permutation_map.
+  erewrite filter_ext_in; [apply Permutation_refl|]. intros p Hp.
+  destruct (tr_vals _ _ _ _ _ H p Hp) as (Hd & _ & Hm & _). unfold g_good. rewrite Hd, Hm. reflexivity.
+Qed.
+
+Section BuildTr.
+Variables (l : Z) (ny nx : nat) (L L' Sd Sd' : list pix) (mv mv' : pix -> Z).
+Variables (So So' : list pix) (oy ox oy' ox' : nat).
+Variables (dat dat' err err' bkg bkg' : pix -> option Z) (he hb : bool).
+Hypothesis HPL : Permutation L' (map sw L).
+Hypothesis HPd : Permutation Sd' (map sw Sd).
+Hypothesis HPo : Permutation So' (map sw So).
+Hypothesis Hmv : forall p, In p L -> mv' (sw p) = mv p.
+Hypothesis Ho : forall p, In p So ->
+  dat' (sw p) = dat p /\ err' (sw p) = err p /\ bkg' (sw p) = bkg p.
+
+Lemma tr_fst : Permutation (map fst L') (map snd L).
+Proof.
+  eapply Permutation_trans; [apply Permutation_map, HPL|]. rewrite map_map. apply Permutation_refl.
+Qed.
+Lemma tr_snd : Permutation (map snd L') (map fst L).
+Proof.
+  eapply Permutation_trans; [apply Permutation_map, HPL|]. rewrite map_map. apply Permutation_refl.
+Qed.
+Lemma tr_y0 : b_y0 nx L' = b_x0 nx L.
+Proof. unfold b_y0, b_x0. apply minl_perm, tr_fst. Qed.
+Lemma tr_x0 : b_x0 ny L' = b_y0 ny L.
+Proof. unfold b_y0, b_x0. apply minl_perm, tr_snd. Qed.
+Lemma tr_y1 : b_y1 L' = b_x1 L.
+Proof. unfold b_y1, b_x1. apply maxl_perm, Permutation_map, tr_fst. Qed.
+Lemma tr_x1 : b_x1 L' = b_y1 L.
+Proof. unfold b_y1, b_x1. apply maxl_perm, Permutation_map, tr_snd. Qed.
+
+Lemma tr_rel p : b_rel nx ny L' (sw p) = (snd (b_rel ny nx L p), fst (b_rel ny nx L p)).
+Proof. unfold b_rel. rewrite tr_y0, tr_x0. reflexivity. Qed.
+
+Lemma tr_moment a b : b_moment nx ny L' mv' a b = b_moment ny nx L mv b a.
+Proof.
+  unfold b_moment.
+  rewrite (zsum_perm _ _ (Permutation_map _ HPL)), map_map. apply f_equal. apply map_ext_in.
+  intros p Hp. rewrite tr_rel, (Hmv p Hp). cbn [fst snd]. ring.
+Qed.
+Lemma tr_moments : b_moments nx ny L' mv' = transp4 (b_moments ny nx L mv).
+Proof. unfold b_moments. cbn [map transp4 nth]. rewrite !tr_moment. reflexivity. Qed.
+Lemma tr_m00 : b_m00 nx ny L' mv' = b_m00 ny nx L mv.
+Proof. apply tr_moment. Qed.
+Lemma tr_ccen : b_ccen nx ny L' mv' = option_map swap_cen (b_ccen ny nx L mv).
+Proof. unfold b_ccen. rewrite tr_m00, !tr_moment. destruct (_ =? 0)%Z; reflexivity. Qed.
+Lemma tr_cen : b_cen nx ny L' mv' = option_map swap_cen (b_cen ny nx L mv).
+Proof.
+  unfold b_cen. rewrite tr_ccen, tr_x0, tr_y0. unfold b_ccen. destruct (_ =? 0)%Z; reflexivity.
+Qed.
+Lemma tr_covnum : b_covnum nx ny L' mv' = swap_cov (b_covnum ny nx L mv).
+Proof.
+  unfold b_covnum. rewrite tr_m00, !tr_moment. cbn [swap_cov].
+  match goal with |- (?a, ?b, ?c) = (?a', ?b', ?c') =>
+    replace a with a' by ring; replace b with b' by ring; replace c with c' by ring; reflexivity end.
+Qed.
+Lemma tr_cov : b_cov nx ny L' mv' = option_map swap_cov (b_cov ny nx L mv).
+Proof.
+  unfold b_cov. rewrite tr_m00, tr_covnum. destruct (b_covnum ny nx L mv) as [[a b] c].
+  cbn [swap_cov]. destruct (_ =? 0)%Z; [reflexivity|apply regularise_swap].
+Qed.
+Lemma tr_covden : b_covden nx ny L' mv' = b_covden ny nx L mv.
+Proof. unfold b_covden. rewrite tr_m00. reflexivity. Qed.
+Lemma tr_margin : b_margin nx ny L' mv' = b_margin ny nx L mv.
+Proof.
+  unfold b_margin. rewrite tr_m00, tr_covnum. destruct (b_covnum ny nx L mv) as [[a b] c].
+  cbn [swap_cov]. rewrite (Z.mul_comm c a). reflexivity.
+Qed.
+
+Lemma tr_isnil (S S' : list pix) : Permutation S' (map sw S) -> isnil S' = isnil S.
+Proof. intros H. rewrite !isnil_length, (Permutation_length H), map_length. reflexivity. Qed.
+Lemma tr_oarea : o_area Sd' = o_area Sd.
+Proof. unfold o_area. rewrite (tr_isnil _ _ HPd), (Permutation_length HPd), map_length. reflexivity. Qed.
+
+Lemma tr_map {B} (f f' : pix -> B) : (forall p, In p So -> f' (sw p) = f p) ->
+  Permutation (map f' So') (map f So).
+Proof.
+  intros H. eapply Permutation_trans; [apply Permutation_map, HPo|]. rewrite map_map.
+  erewrite map_ext_in; [apply Permutation_refl|]. exact H.
+Qed.
+Lemma tr_flux : b_flux So' dat' = b_flux So dat.
+Proof.
+  unfold b_flux. rewrite (tr_isnil _ _ HPo). destruct (isnil So); [reflexivity|]. apply f_equal.
+  apply zsum_perm, tr_map. intros p Hp. destruct (Ho p Hp) as (-> & _). reflexivity.
+Qed.
+Lemma tr_fluxerr2 : b_fluxerr2 So' err' he = b_fluxerr2 So err he.
+Proof.
+  unfold b_fluxerr2. rewrite (tr_isnil _ _ HPo). destruct he, (isnil So); try reflexivity.
+  apply osum_perm, tr_map. intros p Hp. destruct (Ho p Hp) as (_ & -> & _). reflexivity.
+Qed.
+Lemma tr_bkgsum : b_bkgsum So' bkg' hb = b_bkgsum So bkg hb.
+Proof.
+  unfold b_bkgsum. rewrite (tr_isnil _ _ HPo). destruct hb, (isnil So); try reflexivity.
+  apply osum_perm, tr_map. intros p Hp. destruct (Ho p Hp) as (_ & _ & ->). reflexivity.
+Qed.
+Lemma tr_bkgmean : b_bkgmean So' bkg' hb = b_bkgmean So bkg hb.
+Proof. unfold b_bkgmean. rewrite tr_bkgsum, (Permutation_length HPo), map_length. reflexivity. Qed.
+Lemma tr_tagged : Permutation (map snd (b_tagged So' dat')) (map snd (b_tagged So dat)).
+Proof.
+  unfold b_tagged. rewrite !map_map. cbn [snd]. apply tr_map.
+  intros p Hp. destruct (Ho p Hp) as (-> & _). reflexivity.
+Qed.
+Lemma tr_min : option_map snd (b_argmin So' dat') = option_map snd (b_argmin So dat).
+Proof.
+  unfold b_argmin. apply (arg_ext_value_perm Z.ltb ltb_nb_trans ltb_trans Z.ltb_irrefl ltb_total), tr_tagged.
+Qed.
+Lemma tr_max : option_map snd (b_argmax So' dat') = option_map snd (b_argmax So dat).
+Proof.
+  unfold b_argmax. apply (arg_ext_value_perm Z.gtb gtb_nb_trans gtb_trans gtb_irr gtb_total), tr_tagged.
+Qed.
+
+Lemma build_tr :
+  forget_idx (build l nx ny L' Sd' mv' So' oy' ox' dat' err' bkg' he hb) =
+  forget_idx (tr_row (build l ny nx L Sd mv So oy ox dat err bkg he hb)).
+Proof.
+  unfold forget_idx, tr_row, build.
+  cbn [r_label r_bbox r_segment_area r_area r_moments r_cutout_centroid r_centroid r_covariance
+       r_cov_den r_cov_margin_ok r_flux r_fluxerr2 r_min r_max r_cminidx r_cmaxidx r_minidx r_maxidx
+       r_bkg_sum r_bkg_mean].
+  rewrite tr_moments, tr_ccen, tr_cen, tr_cov, tr_covden, tr_margin, tr_flux, tr_fluxerr2,
+    tr_bkgsum, tr_bkgmean, tr_min, tr_max, tr_x0, tr_x1, tr_y0, tr_y1, tr_oarea,
+    (Permutation_length HPL), map_length.
+  reflexivity.
+Qed.
+End BuildTr.
+
+Theorem row_transpose_proof ny nx own own' det det' l :
+  transposed_on_label ny nx own own' l -> transposed_on_label ny nx det det' l ->
+  forget_idx (mkrow nx ny own' det' l) = forget_idx (tr_row (mkrow ny nx own det l)).
+Proof.
+  intros Ho Hd. rewrite !mkrow_is_build. unfold def_row.
+  pose proof Ho as (_ & _ & -> & ->).
+  apply build_tr.
+  - apply (tr_lab _ _ _ _ _ Hd).
+  - apply (tr_S _ _ _ _ _ Hd).
+  - apply (tr_S _ _ _ _ _ Ho).
+  - intros p Hp. destruct (tr_vals _ _ _ _ _ Hd p Hp) as (_ & Hc & Hm & _).
+    unfold g_mv. rewrite Hc, Hm. reflexivity.
+  - intros p Hp. unfold g_S in Hp. apply filter_In in Hp. destruct Hp as [Hp _].
+    destruct (tr_vals _ _ _ _ _ Ho p Hp) as (H1 & _ & _ & H4 & H5). auto.
+Qed.
+Local Open Scope Z_scope.
+
+(* ------------------------------------------------------------------ *)
+(* 5b. centroid and second moments                                     *)
+(* ------------------------------------------------------------------ *)
+Lemma zsum_nonneg l : (forall x, In x l -> 0 <= x) -> 0 <= zsum l.
+Proof.
+  induction l as [|a l IH]; intros H; [cbn; lia|]. rewrite zsum_cons.
+  assert (0 <= a) by (apply H; left; reflexivity).
+  assert (0 <= zsum l) by (apply IH; intros x Hx; apply H; right; exact Hx). lia.
+Qed.
+
+Lemma zsum_bilinear {A} (L : list A) (v X Y : A -> Z) (a b c d : Z) :
+  zsum (map (fun p => v p * (a * X p - b) * (c * Y p - d)) L) =
+  a * c * zsum (map (fun p => v p * X p * Y p) L) - a * d * zsum (map (fun p => v p * X p) L)
+  - b * c * zsum (map (fun p => v p * Y p) L) + b * d * zsum (map v L).
+Proof.
+  induction L as [|p L IH]; [cbn; ring|]. cbn [map]. rewrite !zsum_cons, IH. ring.
+Qed.
+
+Lemma zsum_quadform {A} (L : list A) (v U V : A -> Z) (s t : Z) :
+  zsum (map (fun p => v p * (s * U p + t * V p) * (s * U p + t * V p)) L) =
+  s * s * zsum (map (fun p => v p * U p * U p) L) + 2 * s * t * zsum (map (fun p => v p * U p * V p) L)
+  + t * t * zsum (map (fun p => v p * V p * V p) L).
+Proof.
+  induction L as [|p L IH]; [cbn; ring|]. cbn [map]. rewrite !zsum_cons, IH. ring.
+Qed.
+
+Lemma cauchy_schwarz {A} (L : list A) (v U V : A -> Z) :
+  (forall p, In p L -> 0 <= v p) ->
+  0 <= zsum (map (fun p => v p * U p * U p) L) * zsum (map (fun p => v p * V p * V p) L)
+       - zsum (map (fun p => v p * U p * V p) L) * zsum (map (fun p => v p * U p * V p) L).
+Proof.
+  intros Hv.
+  set (A' := zsum (map (fun p => v p * U p * U p) L)).
+  set (B' := zsum (map (fun p => v p * U p * V p) L)).
+  set (C' := zsum (map (fun p => v p * V p * V p) L)).
+  assert (Q : forall s t, 0 <= s * s * A' + 2 * s * t * B' + t * t * C').
+  { intros s t. unfold A', B', C'. rewrite <- zsum_quadform. apply zsum_nonneg.
+    intros x Hx. apply in_map_iff in Hx. destruct Hx as (p & <- & Hp). specialize (Hv p Hp).
+    rewrite <- Z.mul_assoc. apply Z.mul_nonneg_nonneg; [exact Hv|apply Z.square_nonneg]. }
+  assert (HA : 0 <= A') by (specialize (Q 1 0); lia).
+  assert (HC : 0 <= C') by (specialize (Q 0 1); lia).
+  destruct (Z.eq_dec C' 0) as [E|E].
+  - assert (B' = 0).
+    { specialize (Q 1 (- (A' + 1) * B')). rewrite E in Q. nia. }
+    nia.
+  - specialize (Q C' (- B')). nia.
+Qed.
+
+Lemma zpow_0 z : zpow z 0 = 1.  Proof. reflexivity. Qed.
+Lemma zpow_1 z : zpow z 1 = z.  Proof. unfold zpow. cbn. apply Z.pow_1_r. Qed.
+Lemma zpow_2 z : zpow z 2 = z * z.  Proof. unfold zpow. cbn. apply Z.pow_2_r. Qed.
+
+Lemma g_mv_nonneg cnv msk p : 0 <= g_mv cnv msk p.
+Proof.
+  unfold g_mv. destruct (cnv p) as [v|]; [|lia].
+  destruct (v <? 0) eqn:E; cbn [orb]; [lia|]. destruct (msk p); [lia|]. apply Z.ltb_ge in E. exact E.
+Qed.
+
+Section Moments.
+Variables (ny nx : nat) (L : list pix) (mv : pix -> Z).
+Let X (p : pix) := snd (b_rel ny nx L p).
+Let Y (p : pix) := fst (b_rel ny nx L p).
+Let M := b_m00 ny nx L mv.
+
+Lemma m00_sum : M = zsum (map mv L).
+Proof.
+  unfold M, b_m00, b_moment. f_equal. apply map_ext. intros p. rewrite !zpow_0. ring.
+Qed.
+Lemma m01_sum : b_moment ny nx L mv 0 1 = zsum (map (fun p => mv p * X p) L).
+Proof. unfold b_moment. f_equal. apply map_ext. intros p. rewrite zpow_0, zpow_1. unfold X. ring. Qed.
+Lemma m10_sum : b_moment ny nx L mv 1 0 = zsum (map (fun p => mv p * Y p) L).
+Proof. unfold b_moment. f_equal. apply map_ext. intros p. rewrite zpow_0, zpow_1. unfold Y. ring. Qed.
+Lemma m02_sum : b_moment ny nx L mv 0 2 = zsum (map (fun p => mv p * X p * X p) L).
+Proof. unfold b_moment. f_equal. apply map_ext. intros p. rewrite zpow_0, zpow_2. unfold X. ring. Qed.
+Lemma m20_sum : b_moment ny nx L mv 2 0 = zsum (map (fun p => mv p * Y p * Y p) L).
+Proof. unfold b_moment. f_equal. apply map_ext. intros p. rewrite zpow_0, zpow_2. unfold Y. ring. Qed.
+Lemma m11_sum : b_moment ny nx L mv 1 1 = zsum (map (fun p => mv p * X p * Y p) L).
+Proof. unfold b_moment. f_equal. apply map_ext. intros p. rewrite !zpow_1. unfold X, Y. ring. Qed.
+
+Lemma zsum_affine {A} (l : list A) (v X' : A -> Z) (c : Z) :
+  zsum (map (fun p => v p * (X' p + c)) l) = zsum (map (fun p => v p * X' p) l) + c * zsum (map v l).
+Proof. induction l as [|p l IH]; [cbn; ring|]. cbn [map]. rewrite !zsum_cons, IH. ring. Qed.
+
+(* the centroid is the centre of mass in image coordinates: (sum x v / sum v, sum y v / sum v) *)
+Lemma cen_center_of_mass :
+  b_cen ny nx L mv =
+  if M =? 0 then None
+  else Some ((zsum (map (fun p => mv p * Z.of_nat (snd p)) L), M),
+             (zsum (map (fun p => mv p * Z.of_nat (fst p)) L), M)).
+Proof.
+  unfold b_cen, b_ccen. fold M. destruct (M =? 0); [reflexivity|].
+  assert (Ex : zsum (map (fun p => mv p * Z.of_nat (snd p)) L) =
+               b_moment ny nx L mv 0 1 + Z.of_nat (b_x0 nx L) * M).
+  { rewrite m01_sum, m00_sum, <- zsum_affine. f_equal. apply map_ext. intros p.
+    unfold X, b_rel. cbn [snd]. f_equal. ring. }
+  assert (Ey : zsum (map (fun p => mv p * Z.of_nat (fst p)) L) =
+               b_moment ny nx L mv 1 0 + Z.of_nat (b_y0 ny L) * M).
+  { rewrite m10_sum, m00_sum, <- zsum_affine. f_equal. apply map_ext. intros p.
+    unfold Y, b_rel. cbn [fst]. f_equal. ring. }
+  rewrite Ex, Ey. reflexivity.
+Qed.
+
+(* central second moments with the denominators cleared: U = M*(x - xbar), V = M*(y - ybar) *)
+Let U (p : pix) := M * X p - b_moment ny nx L mv 0 1.
+Let V (p : pix) := M * Y p - b_moment ny nx L mv 1 0.
+Definition cm_xx := zsum (map (fun p => mv p * U p * U p) L).
+Definition cm_xy := zsum (map (fun p => mv p * U p * V p) L).
+Definition cm_yy := zsum (map (fun p => mv p * V p * V p) L).
+
+Lemma covnum_central : forall a b c, b_covnum ny nx L mv = (a, b, c) ->
+  M * a = cm_xx /\ M * b = cm_xy /\ M * c = cm_yy.
+Proof.
+  intros a b c E. unfold b_covnum in E. fold M in E. injection E as <- <- <-.
+  unfold cm_xx, cm_xy, cm_yy, U, V. rewrite !zsum_bilinear.
+  rewrite <- m02_sum, <- m20_sum, <- m11_sum, <- !m01_sum, <- !m10_sum, <- m00_sum.
+  assert (Eyx : zsum (map (fun p => mv p * Y p * X p) L) = b_moment ny nx L mv 1 1).
+  { rewrite m11_sum. f_equal. apply map_ext. intros p. ring. }
+  repeat split; ring.
+Qed.
+
+Lemma covnum_psd : (forall p, In p L -> 0 <= mv p) -> 0 < M ->
+  forall a b c, b_covnum ny nx L mv = (a, b, c) -> 0 <= a /\ 0 <= c /\ 0 <= a * c - b * b.
+Proof.
+  intros Hv HM a b c E. destruct (covnum_central a b c E) as (Ha & Hb & Hc).
+  assert (Hxx : 0 <= cm_xx).
+  { unfold cm_xx. apply zsum_nonneg. intros x Hx. apply in_map_iff in Hx. destruct Hx as (p & <- & Hp).
+    rewrite <- Z.mul_assoc. apply Z.mul_nonneg_nonneg; [apply Hv, Hp|apply Z.square_nonneg]. }
+  assert (Hyy : 0 <= cm_yy).
+  { unfold cm_yy. apply zsum_nonneg. intros x Hx. apply in_map_iff in Hx. destruct Hx as (p & <- & Hp).
+    rewrite <- Z.mul_assoc. apply Z.mul_nonneg_nonneg; [apply Hv, Hp|apply Z.square_nonneg]. }
+  assert (Hcs := cauchy_schwarz L mv U V Hv). fold cm_xx cm_xy cm_yy in Hcs.
+  rewrite <- Ha, <- Hb, <- Hc in Hcs. rewrite <- Ha in Hxx. rewrite <- Hc in Hyy.
+  repeat split; nia.
+Qed.
+End Moments.
+
+(* ------------------------------------------------------------------ *)
+(* 5c. the 1/12 regularisation loop                                    *)
+(* ------------------------------------------------------------------ *)
+Lemma regularise_spec fuel d2 a b c r : regularise fuel d2 a b c = Some r ->
+  exists k : nat, (k <= fuel)%nat /\
+    r = (a + Z.of_nat k * d2, b, c + Z.of_nat k * d2) /\
+    d2 * d2 <= (a + Z.of_nat k * d2) * (c + Z.of_nat k * d2) - b * b /\
+    forall j : nat, (j < k)%nat -> (a + Z.of_nat j * d2) * (c + Z.of_nat j * d2) - b * b < d2 * d2.
+Proof.
+  revert a c. induction fuel as [|f IH]; intros a c H; cbn [regularise] in H;
+    destruct (a * c - b * b <? d2 * d2) eqn:E.
+  - discriminate.
+  - injection H as <-. apply Z.ltb_ge in E. exists 0%nat. cbn [Z.of_nat]. rewrite !Z.mul_0_l, !Z.add_0_r.
+    repeat split; [lia|exact E|]. intros j Hj. lia.
+  - destruct (IH _ _ H) as (k & Hk & -> & Hge & Hlt). exists (S k).
+    rewrite Nat2Z.inj_succ. unfold Z.succ.
+    replace (a + (Z.of_nat k + 1) * d2) with (a + d2 + Z.of_nat k * d2) by ring.
+    replace (c + (Z.of_nat k + 1) * d2) with (c + d2 + Z.of_nat k * d2) by ring.
+    repeat split; [lia|exact Hge|]. intros [|j] Hj.
+    + cbn [Z.of_nat]. rewrite !Z.mul_0_l, !Z.add_0_r. apply Z.ltb_lt. exact E.
+    + rewrite Nat2Z.inj_succ. unfold Z.succ.
+      replace (a + (Z.of_nat j + 1) * d2) with (a + d2 + Z.of_nat j * d2) by ring.
+      replace (c + (Z.of_nat j + 1) * d2) with (c + d2 + Z.of_nat j * d2) by ring.
+      apply Hlt. lia.
+  - injection H as <-. apply Z.ltb_ge in E. exists 0%nat. cbn [Z.of_nat]. rewrite !Z.mul_0_l, !Z.add_0_r.
+    repeat split; [lia|exact E|]. intros j Hj. lia.
+Qed.
+
+(* for a positive semidefinite matrix the loop stops after at most one step *)
+Lemma regularise_psd fuel d2 a b c : 0 < d2 -> 0 <= a -> 0 <= c -> 0 <= a * c - b * b ->
+  regularise (S fuel) d2 a b c =
+  Some (if a * c - b * b <? d2 * d2 then (a + d2, b, c + d2) else (a, b, c)).
+Proof.
+  intros Hd Ha Hc Hdet. cbn [regularise]. destruct (a * c - b * b <? d2 * d2) eqn:E; [|reflexivity].
+  assert (E2 : (a + d2) * (c + d2) - b * b <? d2 * d2 = false) by (apply Z.ltb_ge; nia).
+  destruct fuel; cbn [regularise]; rewrite E2; reflexivity.
+Qed.
+
+(* hence the covariance of a source with positive moment-data sum is always defined: it is the
+   matrix of central second moments over M00, plus (1/12) on the diagonal exactly when its
+   determinant is below (1/12)^2 (numerators over the denominator 12*M00^2) *)
+Lemma cov_defined ny nx L mv : (forall p, In p L -> 0 <= mv p) ->
+  b_m00 ny nx L mv <> 0 ->
+  forall a b c, b_covnum ny nx L mv = (a, b, c) ->
+  let M := b_m00 ny nx L mv in
+  0 < M /\ 0 <= a /\ 0 <= c /\ 0 <= a * c - b * b /\
+  b_cov ny nx L mv =
+  Some (if 144 * (a * c - b * b) <? M * M * (M * M)
+        then (12 * a + M * M, 12 * b, 12 * c + M * M) else (12 * a, 12 * b, 12 * c)).
+Proof.
+  intros Hv HM a b c E M.
+  assert (HM0 : 0 <= M).
+  { unfold M. rewrite m00_sum. apply zsum_nonneg. intros x Hx. apply in_map_iff in Hx.
+    destruct Hx as (p & <- & Hp). apply Hv, Hp. }
+  assert (HMpos : 0 < M) by (unfold M in *; lia).
+  destruct (covnum_psd ny nx L mv Hv HMpos a b c E) as (Ha & Hc & Hdet).
+  repeat split; try assumption.
+  unfold b_cov. fold M. rewrite E. destruct (M =? 0) eqn:EM; [apply Z.eqb_eq in EM; lia|].
+  unfold reg_fuel. rewrite regularise_psd; try nia.
+  replace (12 * a * (12 * c) - 12 * b * (12 * b)) with (144 * (a * c - b * b)) by ring.
+  reflexivity.
+Qed.
+Local Open Scope Z_scope.
+
+(* ------------------------------------------------------------------ *)
+(* 5d. label order of a complete catalog                               *)
+(* ------------------------------------------------------------------ *)
+From Coq Require Import Sorted.
+
+Lemma insert_u_in x l v : In v (insert_u x l) <-> v = x \/ In v l.
+Proof.
+  induction l as [|y r IH]; cbn [insert_u].
+  - cbn. intuition.
+  - destruct (x <? y) eqn:E1; [cbn; intuition|]. destruct (Z.eqb_spec x y) as [E2|E2].
+    + subst y. cbn. intuition.
+    + cbn [In]. rewrite IH. intuition.
+Qed.
+
+Lemma insert_u_sorted x l : StronglySorted Z.lt l -> StronglySorted Z.lt (insert_u x l).
+Proof.
+  induction 1 as [|y r Hs IH Hf]; cbn [insert_u].
+  - constructor; constructor.
+  - destruct (x <? y) eqn:E1.
+    + apply Z.ltb_lt in E1. constructor; [constructor; assumption|].
+      constructor; [exact E1|]. eapply Forall_impl; [|exact Hf]. intros z Hz. cbn in Hz. lia.
+    + apply Z.ltb_ge in E1. destruct (Z.eqb_spec x y) as [E2|E2]; [constructor; assumption|].
+      constructor; [exact IH|]. apply Forall_forall. intros v Hv. apply insert_u_in in Hv.
+      destruct Hv as [->|Hv]; [lia|]. rewrite Forall_forall in Hf. apply Hf, Hv.
+Qed.
+
+Lemma fold_insert_in l v : In v (fold_right insert_u [] l) <-> In v l.
+Proof.
+  induction l as [|a l IH]; [reflexivity|]. cbn [fold_right]. rewrite insert_u_in, IH. cbn. intuition.
+Qed.
+Lemma fold_insert_sorted l : StronglySorted Z.lt (fold_right insert_u [] l).
+Proof. induction l as [|a l IH]; [constructor|]. cbn [fold_right]. apply insert_u_sorted, IH. Qed.
+
+Lemma seg_labels_in ny nx seg v : In v (seg_labels ny nx seg) <->
+  v <> 0 /\ exists y x, (y < ny)%nat /\ (x < nx)%nat /\ seg y x = v.
+Proof.
+  unfold seg_labels. rewrite fold_insert_in, filter_In, in_map_iff. split.
+  - intros [([y x] & E & Hp) Hv]. apply in_coords_box in Hp. cbn [fst snd] in *.
+    split; [destruct (Z.eqb_spec v 0); [discriminate|assumption]|]. exists y, x. repeat split; solve [lia | exact E].
+  - intros (Hv & y & x & Hy & Hx & E). split.
+    + exists (y, x). split; [exact E|]. apply in_coords_box. cbn. lia.
+    + destruct (Z.eqb_spec v 0); [contradiction|reflexivity].
+Qed.
+Lemma seg_labels_sorted ny nx seg : StronglySorted Z.lt (seg_labels ny nx seg).
+Proof. apply fold_insert_sorted. Qed.
+
+Lemma sorted_nodup l : StronglySorted Z.lt l -> NoDup l.
+Proof.
+  induction 1 as [|a l Hs IH Hf]; constructor; [|exact IH].
+  intros Hin. rewrite Forall_forall in Hf. specialize (Hf a Hin). lia.
+Qed.
+
+Lemma seg_labels_relabel ny nx seg pi : (forall a b, pi a = pi b -> a = b) -> pi 0 = 0 ->
+  Permutation (seg_labels ny nx (fun y x => pi (seg y x))) (map pi (seg_labels ny nx seg)).
+Proof.
+  intros Hinj H0. apply NoDup_Permutation.
+  - apply sorted_nodup, seg_labels_sorted.
+  - apply FinFun.Injective_map_NoDup; [exact Hinj|apply sorted_nodup, seg_labels_sorted].
+  - intros v. rewrite seg_labels_in, in_map_iff. split.
+    + intros (Hv & y & x & Hy & Hx & E). exists (seg y x). split; [exact E|].
+      apply seg_labels_in. split; [|exists y, x; auto]. intros E0. rewrite E0, H0 in E. congruence.
+    + intros (u & <- & Hu). apply seg_labels_in in Hu. destruct Hu as (Hu & y & x & Hy & Hx & E).
+      split; [intros E0; apply Hu, Hinj; rewrite E0, H0; reflexivity|]. exists y, x. rewrite E. auto.
+Qed.
+
+Lemma full_rows_sorted ny nx own det :
+  StronglySorted Z.lt (map r_label (full_catalog_rows ny nx own det)).
+Proof. unfold full_catalog_rows. rewrite rows_labels. apply seg_labels_sorted. Qed.
+
+Lemma full_rows_relabel ny nx own det pi : (forall a b, pi a = pi b -> a = b) -> pi 0 = 0 ->
+  Permutation (full_catalog_rows ny nx (relabel pi own) (option_map (relabel pi) det))
+              (map (fun r => set_label (pi (r_label r)) r) (full_catalog_rows ny nx own det)).
+Proof.
+  intros Hinj H0. unfold full_catalog_rows. rewrite <- (relabel_catalog _ _ _ _ _ _ Hinj).
+  apply rows_perm. cbn [relabel i_seg]. apply seg_labels_relabel; assumption.
+Qed.
+Local Open Scope Z_scope.
+
+(* ------------------------------------------------------------------ *)
+(* 5e. readable characterisations used in the property statements       *)
+(* ------------------------------------------------------------------ *)
+Lemma g_S_in L dat msk p :
+  In p (g_S L dat msk) <-> In p L /\ msk p = false /\ exists v, dat p = Some v.
+Proof.
+  unfold g_S, g_good. rewrite filter_In. split.
+  - intros [Hp H]. apply andb_true_iff in H. destruct H as [Hm Hd]. split; [exact Hp|].
+    split; [destruct (msk p); [discriminate|reflexivity]|]. destruct (dat p) as [v|]; [eauto|discriminate].
+  - intros (Hp & -> & v & ->). auto.
+Qed.
+
+(* the bounding box is the tight box of the label's pixels *)
+Lemma bbox_tight ny nx own det l : lab_pixels ny nx det l <> [] ->
+  let '(xmin, xmax, ymin, ymax) := r_bbox (mkrow ny nx own det l) in
+  (forall p, In p (lab_pixels ny nx det l) ->
+     ymin <= Z.of_nat (fst p) <= ymax /\ xmin <= Z.of_nat (snd p) <= xmax) /\
+  (exists p, In p (lab_pixels ny nx det l) /\ Z.of_nat (fst p) = ymin) /\
+  (exists p, In p (lab_pixels ny nx det l) /\ Z.of_nat (fst p) = ymax) /\
+  (exists p, In p (lab_pixels ny nx det l) /\ Z.of_nat (snd p) = xmin) /\
+  (exists p, In p (lab_pixels ny nx det l) /\ Z.of_nat (snd p) = xmax).
+Proof.
+  intros Hne. cbn [mkrow r_bbox].
+  set (L := lab_pixels ny nx det l) in *.
+  assert (Hb : forall p, In p L -> (fst p < ny /\ snd p < nx)%nat).
+  { intros p Hp. apply lab_in in Hp. tauto. }
+  split; [intros p Hp; apply lab_bounds in Hp; lia|].
+  assert (Hys : map fst L <> []) by (destruct L; [congruence|discriminate]).
+  assert (Hxs : map snd L <> []) by (destruct L; [congruence|discriminate]).
+  assert (HSys : map S (map fst L) <> []) by (destruct L; [congruence|discriminate]).
+  assert (HSxs : map S (map snd L) <> []) by (destruct L; [congruence|discriminate]).
+  repeat split.
+  - assert (H := minl_attained ny (map fst L) Hys). apply in_map_iff in H.
+    + destruct H as (p & E & Hp). exists p. split; [exact Hp|]. rewrite E. reflexivity.
+    + intros y Hy. apply in_map_iff in Hy. destruct Hy as (p & <- & Hp). apply Hb in Hp. lia.
+  - assert (H := maxl_attained (map S (map fst L)) HSys). apply in_map_iff in H.
+    destruct H as (y & E & Hy). apply in_map_iff in Hy. destruct Hy as (p & <- & Hp).
+    exists p. split; [exact Hp|]. unfold by1, bbox. fold L. rewrite <- E. lia.
+  - assert (H := minl_attained nx (map snd L) Hxs). apply in_map_iff in H.
+    + destruct H as (p & E & Hp). exists p. split; [exact Hp|]. rewrite E. reflexivity.
+    + intros y Hy. apply in_map_iff in Hy. destruct Hy as (p & <- & Hp). apply Hb in Hp. lia.
+  - assert (H := maxl_attained (map S (map snd L)) HSxs). apply in_map_iff in H.
+    destruct H as (y & E & Hy). apply in_map_iff in Hy. destruct Hy as (p & <- & Hp).
+    exists p. split; [exact Hp|]. unfold bx1, bbox. fold L. rewrite <- E. lia.
+Qed.
+
+(* min_value / minval_index: the least value over S_l and its FIRST occurrence in the
+   row-major order of S_l; the cutout index is relative to the box origin *)
+Lemma min_first ny nx own det l :
+  let S := g_S (lab_pixels ny nx own l) (dataat own) (maskat own) in
+  let r := mkrow ny nx own det l in
+  S <> [] ->
+  exists p v pre post, S = pre ++ p :: post /\ dataat own p = Some v /\
+    r_min r = Some v /\
+    r_minidx r = Some (Z.of_nat (fst p), Z.of_nat (snd p)) /\
+    r_cminidx r = Some (Z.of_nat (fst p) - Z.of_nat (by0 ny nx own l),
+                        Z.of_nat (snd p) - Z.of_nat (bx0 ny nx own l)) /\
+    (forall q, In q pre -> exists w, dataat own q = Some w /\ v < w) /\
+    (forall q, In q post -> exists w, dataat own q = Some w /\ v <= w).
+Proof.
+  intros S r Hne. subst r. rewrite mkrow_is_build. unfold def_row. fold S.
+  unfold build. cbn [r_min r_minidx r_cminidx]. unfold b_argmin.
+  assert (Hfin : forall q, In q S -> exists w, dataat own q = Some w).
+  { intros q Hq. apply g_S_in in Hq. tauto. }
+  destruct (arg_ext_some Z.ltb (b_tagged S (dataat own))) as [[p v] E].
+  { unfold b_tagged. destruct S; [congruence|discriminate]. }
+  rewrite E. destruct (argmin_spec _ _ _ E) as (pre & post & Heq & Hpre & Hpost).
+  unfold b_tagged in Heq. apply map_eq_app in Heq. destruct Heq as (S1 & S2' & ES & E1 & E2).
+  apply map_eq_cons in E2. destruct E2 as (p' & S2 & -> & [= <- Ev] & E3).
+  exists p', v, S1, S2. split; [exact ES|].
+  assert (Hp' : In p' S) by (rewrite ES; apply in_elt).
+  destruct (Hfin p' Hp') as (w & Hw). rewrite Hw in Ev. cbn in Ev. subst w.
+  split; [exact Hw|]. cbn [option_map fst snd]. split; [reflexivity|].
+  split; [unfold o_add, o_rel; cbn [fst snd]; do 2 f_equal; lia|]. split; [reflexivity|]. split.
+  - intros q Hq. destruct (Hfin q) as (w & Hq'); [rewrite ES; apply in_or_app; left; exact Hq|].
+    exists w. split; [exact Hq'|]. specialize (Hpre (q, valz (dataat own q))). rewrite Hq' in Hpre.
+    apply Hpre. rewrite <- E1. apply in_map_iff. exists q. rewrite Hq'. auto.
+  - intros q Hq. destruct (Hfin q) as (w & Hq'); [rewrite ES; apply in_or_app; right; right; exact Hq|].
+    exists w. split; [exact Hq'|]. specialize (Hpost (q, valz (dataat own q))). rewrite Hq' in Hpost.
+    apply Hpost. rewrite <- E3. apply in_map_iff. exists q. rewrite Hq'. auto.
+Qed.
+
+Lemma max_first ny nx own det l :
+  let S := g_S (lab_pixels ny nx own l) (dataat own) (maskat own) in
+  let r := mkrow ny nx own det l in
+  S <> [] ->
+  exists p v pre post, S = pre ++ p :: post /\ dataat own p = Some v /\
+    r_max r = Some v /\
+    r_maxidx r = Some (Z.of_nat (fst p), Z.of_nat (snd p)) /\
+    r_cmaxidx r = Some (Z.of_nat (fst p) - Z.of_nat (by0 ny nx own l),
+                        Z.of_nat (snd p) - Z.of_nat (bx0 ny nx own l)) /\
+    (forall q, In q pre -> exists w, dataat own q = Some w /\ w < v) /\
+    (forall q, In q post -> exists w, dataat own q = Some w /\ w <= v).
+Proof.
+  intros S r Hne. subst r. rewrite mkrow_is_build. unfold def_row. fold S.
+  unfold build. cbn [r_max r_maxidx r_cmaxidx]. unfold b_argmax.
+  assert (Hfin : forall q, In q S -> exists w, dataat own q = Some w).
+  { intros q Hq. apply g_S_in in Hq. tauto. }
+  destruct (arg_ext_some Z.gtb (b_tagged S (dataat own))) as [[p v] E].
+  { unfold b_tagged. destruct S; [congruence|discriminate]. }
+  rewrite E. destruct (argmax_spec _ _ _ E) as (pre & post & Heq & Hpre & Hpost).
+  unfold b_tagged in Heq. apply map_eq_app in Heq. destruct Heq as (S1 & S2' & ES & E1 & E2).
+  apply map_eq_cons in E2. destruct E2 as (p' & S2 & -> & [= <- Ev] & E3).
+  exists p', v, S1, S2. split; [exact ES|].
+  assert (Hp' : In p' S) by (rewrite ES; apply in_elt).
+  destruct (Hfin p' Hp') as (w & Hw). rewrite Hw in Ev. cbn in Ev. subst w.
+  split; [exact Hw|]. cbn [option_map fst snd]. split; [reflexivity|].
+  split; [unfold o_add, o_rel; cbn [fst snd]; do 2 f_equal; lia|]. split; [reflexivity|]. split.
+  - intros q Hq. destruct (Hfin q) as (w & Hq'); [rewrite ES; apply in_or_app; left; exact Hq|].
+    exists w. split; [exact Hq'|]. specialize (Hpre (q, valz (dataat own q))). rewrite Hq' in Hpre.
+    apply Hpre. rewrite <- E1. apply in_map_iff. exists q. rewrite Hq'. auto.
+  - intros q Hq. destruct (Hfin q) as (w & Hq'); [rewrite ES; apply in_or_app; right; right; exact Hq|].
+    exists w. split; [exact Hq'|]. specialize (Hpost (q, valz (dataat own q))). rewrite Hq' in Hpost.
+    apply Hpost. rewrite <- E3. apply in_map_iff. exists q. rewrite Hq'. auto.
+Qed.
+Local Open Scope Z_scope.
+
+(* row-level statements of centroid and covariance *)
+Lemma lab_in_seg ny nx I l p :
+  In p (lab_pixels ny nx I l) <-> (fst p < ny)%nat /\ (snd p < nx)%nat /\ i_seg I (fst p) (snd p) = l.
+Proof. rewrite lab_in. unfold haslab. rewrite Z.eqb_eq. reflexivity. Qed.
+
+Lemma row_centroid ny nx own det l :
+  let L := lab_pixels ny nx det l in
+  let mv := g_mv (convat det) (maskat det) in
+  let M := zsum (map mv L) in
+  r_centroid (mkrow ny nx own det l) =
+  if M =? 0 then None
+  else Some ((zsum (map (fun p => mv p * Z.of_nat (snd p)) L), M),
+             (zsum (map (fun p => mv p * Z.of_nat (fst p)) L), M)).
+Proof.
+  intros L mv M. rewrite mkrow_is_build. unfold def_row, build. cbn [r_centroid]. fold L mv.
+  rewrite cen_center_of_mass, m00_sum. reflexivity.
+Qed.
+
+Lemma row_covariance ny nx own det l :
+  let L := lab_pixels ny nx det l in
+  let mv := g_mv (convat det) (maskat det) in
+  let M := zsum (map mv L) in
+  M <> 0 ->
+  forall a b c, b_covnum ny nx L mv = (a, b, c) ->
+  0 < M /\ 0 <= a /\ 0 <= c /\ 0 <= a * c - b * b /\
+  M * a = cm_xx ny nx L mv /\ M * b = cm_xy ny nx L mv /\ M * c = cm_yy ny nx L mv /\
+  r_cov_den (mkrow ny nx own det l) = 12 * M * M /\
+  r_covariance (mkrow ny nx own det l) =
+  Some (if 144 * (a * c - b * b) <? M * M * (M * M)
+        then (12 * a + M * M, 12 * b, 12 * c + M * M) else (12 * a, 12 * b, 12 * c)).
+Proof.
+  intros L mv M HM a b c E.
+  assert (EM : b_m00 ny nx L mv = M) by apply m00_sum.
+  assert (HM' : b_m00 ny nx L mv <> 0) by (rewrite EM; exact HM).
+  destruct (cov_defined ny nx L mv (fun p _ => g_mv_nonneg _ _ p) HM' a b c E) as (H1 & H2 & H3 & H4 & H5).
+  destruct (covnum_central ny nx L mv a b c E) as (H6 & H7 & H8).
+  rewrite EM in H1, H5, H6, H7, H8.
+  rewrite mkrow_is_build. unfold def_row, build. cbn [r_covariance r_cov_den]. fold L mv.
+  unfold b_covden. rewrite EM. repeat split; assumption.
+Qed.
+
+(* ---- the hypotheses of the covariance theorems are satisfiable for every input ---- *)
+Definition embed_img {A} (d : A) (ny nx dy dx : nat) (f : fimg A) : fimg A :=
+  fun y x => if ((dy <=? y) && (y <? dy + ny) && (dx <=? x) && (x <? dx + nx))%nat
+             then f (y - dy)%nat (x - dx)%nat else d.
+Definition embed (ny nx dy dx : nat) (I : inputs) : inputs := {|
+  i_seg := embed_img 0 ny nx dy dx (i_seg I);
+  i_data := embed_img None ny nx dy dx (i_data I);
+  i_conv := option_map (embed_img None ny nx dy dx) (i_conv I);
+  i_err := option_map (embed_img None ny nx dy dx) (i_err I);
+  i_bkg := option_map (embed_img None ny nx dy dx) (i_bkg I);
+  i_mask := option_map (embed_img false ny nx dy dx) (i_mask I) |}.
+
+Lemma embed_at {A} (d : A) ny nx dy dx f y x : (y < ny)%nat -> (x < nx)%nat ->
+  embed_img d ny nx dy dx f (y + dy)%nat (x + dx)%nat = f y x.
+Proof.
+  intros Hy Hx. unfold embed_img.
+  replace ((dy <=? y + dy) && (y + dy <? dy + ny) && (dx <=? x + dx) && (x + dx <? dx + nx))%nat with true.
+  - f_equal; lia.
+  - symmetry. rewrite !andb_true_iff, !Nat.leb_le, !Nat.ltb_lt. lia.
+Qed.
+
+Lemma embed_is_shifted ny nx dy dx py px I l : l <> 0 ->
+  shifted_on_label ny nx (ny + dy + py) (nx + dx + px) dy dx I (embed ny nx dy dx I) l.
+Proof.
+  intros Hl. unfold shifted_on_label. split; [lia|]. split; [lia|]. split; [|split].
+  - intros y x _ _. cbn [embed i_seg]. unfold embed_img.
+    destruct ((dy <=? y) && (y <? dy + ny) && (dx <=? x) && (x <? dx + nx))%nat eqn:E.
+    + rewrite !andb_true_iff, !Nat.leb_le, !Nat.ltb_lt in E. split; [intros H; repeat split; solve [lia|exact H]|tauto].
+    + split; [intros H; congruence|]. intros (H1 & H2 & H3 & H4 & _). exfalso.
+      assert (((dy <=? y) && (y <? dy + ny) && (dx <=? x) && (x <? dx + nx))%nat = true); [|congruence].
+      rewrite !andb_true_iff, !Nat.leb_le, !Nat.ltb_lt. lia.
+  - intros y x Hy Hx _. unfold convat, maskat, errat, bkgat, dataat, embed. cbn [fst snd i_data i_conv i_mask i_err i_bkg].
+    destruct (i_conv I), (i_mask I), (i_err I), (i_bkg I); cbn [option_map];
+      rewrite ?embed_at by assumption; repeat split; reflexivity.
+  - unfold has_err, has_bkg, embed. cbn [i_err i_bkg]. destruct (i_err I), (i_bkg I); split; reflexivity.
+Qed.
+
+Definition transpose_inputs (I : inputs) : inputs := {|
+  i_seg := fun y x => i_seg I x y; i_data := fun y x => i_data I x y;
+  i_conv := option_map (fun (f : fimg (option Z)) y x => f x y) (i_conv I);
+  i_err := option_map (fun (f : fimg (option Z)) y x => f x y) (i_err I);
+  i_bkg := option_map (fun (f : fimg (option Z)) y x => f x y) (i_bkg I);
+  i_mask := option_map (fun (f : fimg bool) y x => f x y) (i_mask I) |}.
+
+Lemma transpose_is_transposed ny nx I l : transposed_on_label ny nx I (transpose_inputs I) l.
+Proof.
+  unfold transposed_on_label. split; [|split].
+  - intros y x _ _. reflexivity.
+  - intros y x _ _ _. unfold convat, maskat, errat, bkgat, dataat, transpose_inputs.
+    cbn [fst snd i_data i_conv i_mask i_err i_bkg].
+    destruct (i_conv I), (i_mask I), (i_err I), (i_bkg I); cbn [option_map]; repeat split; reflexivity.
+  - unfold has_err, has_bkg, transpose_inputs. cbn [i_err i_bkg]. destruct (i_err I), (i_bkg I); split; reflexivity.
+Qed.
+
+Lemma same_on_label_refl ny nx I l : same_on_label ny nx I I l.
+Proof. unfold same_on_label. repeat split; auto. Qed.
+Local Open Scope Z_scope.
+
+(* ------------------------------------------------------------------ *)
+(* 4f. transposition of the extremum indices when the data values on S_l are distinct *)
+(* ------------------------------------------------------------------ *)
+Section ArgUnique.
+Variable better : Z -> Z -> bool.
+Hypothesis nb_trans : forall a b c, better a b = false -> better b c = false -> better a c = false.
+Hypothesis b_trans : forall a b c, better a b = true -> better b c = true -> better a c = true.
+Hypothesis b_irr : forall a, better a a = false.
+Hypothesis b_total : forall a b, better a b = false -> better b a = false -> a = b.
+
+Lemma arg_ext_perm_unique (f : pix -> pix) (l l' : list (pix * Z)) :
+  (forall x y, In x l -> In y l -> snd x = snd y -> x = y) ->
+  Permutation l' (map (fun a => (f (fst a), snd a)) l) ->
+  arg_ext better l' = option_map (fun a => (f (fst a), snd a)) (arg_ext better l).
+Proof.
+  intros Hinj HP. set (g := fun a : pix * Z => (f (fst a), snd a)) in *.
+  destruct l as [|b l].
+  - cbn [map] in HP. apply Permutation_sym, Permutation_nil in HP. rewrite HP. reflexivity.
+  - destruct l' as [|b' l']; [apply Permutation_nil in HP; discriminate|].
+    cbn [arg_ext option_map]. f_equal.
+    set (a := arg_first better b l). set (a' := arg_first better b' l').
+    assert (Ha : first_best better (b :: l) a) by apply (arg_first_spec better nb_trans b_trans).
+    assert (Ha' : first_best better (b' :: l') a') by apply (arg_first_spec better nb_trans b_trans).
+    assert (HPs : Permutation (map snd (b :: l)) (map snd (b' :: l'))).
+    { apply Permutation_sym. eapply Permutation_trans; [apply Permutation_map, HP|].
+      rewrite map_map. apply Permutation_refl. }
+    assert (Ev := best_value_perm better b_trans b_irr b_total _ _ _ _ HPs Ha Ha').
+    apply (first_best_in better b_trans b_irr) in Ha, Ha'. destruct Ha as [Hin _], Ha' as [Hin' _].
+    apply (Permutation_in _ HP) in Hin'. apply in_map_iff in Hin'. destruct Hin' as (c & Ec & Hc).
+    assert (c = a). { apply Hinj; [exact Hc|exact Hin|]. rewrite Ev, <- Ec. reflexivity. }
+    subst c. symmetry. exact Ec.
+Qed.
+End ArgUnique.
+
+Section BuildTrIdx.
+Variables (So So' : list pix) (dat dat' : pix -> option Z).
+Hypothesis HPo : Permutation So' (map sw So).
+Hypothesis Hd : forall p, In p So -> dat' (sw p) = dat p.
+Hypothesis Hinj : forall p q, In p So -> In q So -> valz (dat p) = valz (dat q) -> p = q.
+
+Lemma tagged_perm :
+  Permutation (b_tagged So' dat') (map (fun a => (sw (fst a), snd a)) (b_tagged So dat)).
+Proof.
+  unfold b_tagged. rewrite map_map. cbn [fst snd].
+  eapply Permutation_trans; [apply Permutation_map, HPo|]. rewrite map_map.
+  erewrite map_ext_in; [apply Permutation_refl|]. intros p Hp. cbn beta. rewrite (Hd p Hp). reflexivity.
+Qed.
+Lemma tagged_inj x y : In x (b_tagged So dat) -> In y (b_tagged So dat) -> snd x = snd y -> x = y.
+Proof.
+  unfold b_tagged. rewrite !in_map_iff. intros (p & <- & Hp) (q & <- & Hq) E. cbn [snd] in E.
+  rewrite (Hinj p q Hp Hq E). reflexivity.
+Qed.
+Lemma tr_argmin_u : b_argmin So' dat' = option_map (fun a => (sw (fst a), snd a)) (b_argmin So dat).
+Proof.
+  unfold b_argmin.
+  apply (arg_ext_perm_unique Z.ltb ltb_nb_trans ltb_trans Z.ltb_irrefl ltb_total sw); [exact tagged_inj|exact tagged_perm].
+Qed.
+Lemma tr_argmax_u : b_argmax So' dat' = option_map (fun a => (sw (fst a), snd a)) (b_argmax So dat).
+Proof.
+  unfold b_argmax.
+  apply (arg_ext_perm_unique Z.gtb gtb_nb_trans gtb_trans gtb_irr gtb_total sw); [exact tagged_inj|exact tagged_perm].
+Qed.
+End BuildTrIdx.
+
+Definition swap_idx (i : Z * Z) : Z * Z := (snd i, fst i).
+
+Theorem row_transpose_idx_proof ny nx own own' det det' l :
+  transposed_on_label ny nx own own' l ->
+  (forall p q, In p (g_S (lab_pixels ny nx own l) (dataat own) (maskat own)) ->
+               In q (g_S (lab_pixels ny nx own l) (dataat own) (maskat own)) ->
+               dataat own p = dataat own q -> p = q) ->
+  let r := mkrow ny nx own det l in
+  let r' := mkrow nx ny own' det' l in
+  r_minidx r' = option_map swap_idx (r_minidx r) /\ r_maxidx r' = option_map swap_idx (r_maxidx r) /\
+  r_cminidx r' = option_map swap_idx (r_cminidx r) /\ r_cmaxidx r' = option_map swap_idx (r_cmaxidx r).
+Proof.
+  intros Ho Hinj r r'. subst r r'. rewrite !mkrow_is_build. unfold def_row, build.
+  cbn [r_minidx r_maxidx r_cminidx r_cmaxidx].
+  set (So := g_S (lab_pixels ny nx own l) (dataat own) (maskat own)) in *.
+  set (So' := g_S (lab_pixels nx ny own' l) (dataat own') (maskat own')).
+  assert (HP : Permutation So' (map sw So)) by apply (tr_S _ _ _ _ _ Ho).
+  assert (Hd : forall p, In p So -> dataat own' (sw p) = dataat own p).
+  { intros p Hp. unfold So, g_S in Hp. apply filter_In in Hp. destruct Hp as [Hp _].
+    destruct (tr_vals _ _ _ _ _ Ho p Hp) as (H1 & _). exact H1. }
+  assert (Hinj' : forall p q, In p So -> In q So -> valz (dataat own p) = valz (dataat own q) -> p = q).
+  { intros p q Hp Hq E. apply Hinj; try assumption.
+    apply g_S_in in Hp, Hq. destruct Hp as (_ & _ & v & Hv), Hq as (_ & _ & w & Hw).
+    rewrite Hv, Hw in *. cbn in E. congruence. }
+  rewrite (tr_argmin_u So So' _ _ HP Hd Hinj'), (tr_argmax_u So So' _ _ HP Hd Hinj').
+  assert (HPL := tr_lab _ _ _ _ _ Ho).
+  assert (Ey : b_y0 nx (lab_pixels nx ny own' l) = b_x0 nx (lab_pixels ny nx own l)).
+  { unfold b_y0, b_x0. apply minl_perm. eapply Permutation_trans; [apply Permutation_map, HPL|].
+    rewrite map_map. apply Permutation_refl. }
+  assert (Ex : b_x0 ny (lab_pixels nx ny own' l) = b_y0 ny (lab_pixels ny nx own l)).
+  { unfold b_y0, b_x0. apply minl_perm. eapply Permutation_trans; [apply Permutation_map, HPL|].
+    rewrite map_map. apply Permutation_refl. }
+  rewrite Ey, Ex.
+  destruct (b_argmin So (dataat own)) as [[pm vm]|], (b_argmax So (dataat own)) as [[pM vM]|];
+    cbn [option_map fst snd sw]; unfold swap_idx, o_add, o_rel, sw; cbn [fst snd]; repeat split; reflexivity.
 Qed.
